@@ -34,65 +34,96 @@ Proof. unfold zlen. cbn [length]. lia. Qed.
 Lemma zlen_nil {A} : zlen (@nil A) = 0. Proof. reflexivity. Qed.
 
 (* ---------- the deque cursor ---------- *)
+Arguments dq_pop_backs : simpl never.
+
 Lemma dq_push_spec d d' c : dq_push d = (d', c) ->
-  dq_head d' = dq_head d /\ dq_tail d' = dq_tail d + 1 /\ cnonneg c /\
+  dq_head d' = dq_head d /\ dq_tail d' = dq_tail d + 1 /\ dq_hw d' = Z.max (dq_hw d) (dq_tail d + 1) /\ cnonneg c /\
   (dq_tail d / node_len = (dq_tail d + 1) / node_len -> c = c0).
 Proof.
   unfold dq_push, node_len. destruct (dq_tail d mod 64 =? 64 - 1) eqn:E.
-  - destruct (dq_reserve_back d) as [d1 c1] eqn:R. intros H; inversion H; subst; clear H. cbn [dq_head dq_tail].
+  - destruct (dq_reserve_back d) as [d1 c1] eqn:R. intros H; inversion H; subst; clear H. cbn [dq_head dq_tail dq_hw].
     unfold dq_reserve_back in R.
-    assert (dq_head d1 = dq_head d /\ dq_tail d1 = dq_tail d /\ cnonneg c1) as (H1 & H2 & H3).
+    assert (dq_head d1 = dq_head d /\ dq_tail d1 = dq_tail d /\ dq_hw d1 = dq_hw d /\ cnonneg c1) as (H1 & H2 & H4 & H3).
     { destruct (dq_map d - dq_fn d <? 2); [destruct (2 * (dq_fn d - dq_sn d + 1 + 1) <? dq_map d)|];
-      inversion R; subst; cbn [dq_head dq_tail]; repeat split; try apply cnonneg_c0; unfold cnonneg; cbn; lia. }
-    split; [lia|]. split; [lia|]. split.
+      inversion R; subst; cbn [dq_head dq_tail dq_hw]; repeat split; try apply cnonneg_c0; unfold cnonneg; cbn; lia. }
+    clear R. split; [clear E; lia|]. split; [clear E; lia|]. split; [clear E; lia|]. split.
     + apply cnonneg_add; [exact H3|unfold cnonneg; cbn; lia].
     + intros. exfalso. lia.
-  - intros H; inversion H; subst; clear H. cbn [dq_head dq_tail].
-    split; [lia|]. split; [lia|]. split; [apply cnonneg_c0|reflexivity].
+  - intros H; inversion H; subst; clear H. cbn [dq_head dq_tail dq_hw].
+    split; [lia|]. split; [lia|]. split; [lia|]. split; [apply cnonneg_c0|reflexivity].
 Qed.
 
 Lemma dq_pop_spec d d' c : dq_pop d = (d', c) ->
-  dq_head d' = dq_head d + 1 /\ dq_tail d' = dq_tail d /\ cnonneg c /\
+  dq_head d' = dq_head d + 1 /\ dq_tail d' = dq_tail d /\ dq_hw d' = dq_hw d /\ cnonneg c /\
   (dq_head d / node_len = (dq_head d + 1) / node_len -> c = c0).
 Proof.
   unfold dq_pop, node_len. destruct (dq_head d mod 64 =? 64 - 1) eqn:E; intros H; inversion H; subst; clear H;
-    cbn [dq_head dq_tail]; (split; [lia|]); (split; [lia|]); split.
+    cbn [dq_head dq_tail dq_hw]; (split; [lia|]); (split; [lia|]); (split; [lia|]); split.
   - unfold cnonneg; cbn; lia.
   - intros. exfalso. lia.
   - apply cnonneg_c0.
   - reflexivity.
 Qed.
 
-Lemma dq_pushes_spec k : forall d d' c, dq_pushes d k = (d', c) ->
-  dq_head d' = dq_head d /\ dq_tail d' = dq_tail d + Z.of_nat k /\ cnonneg c /\
+Lemma dq_pop_back_spec d d' c : dq_pop_back d = (d', c) ->
+  dq_head d' = dq_head d /\ dq_tail d' = dq_tail d - 1 /\ dq_hw d' = dq_hw d /\ cnonneg c /\
+  ((dq_tail d - 1) / node_len = dq_tail d / node_len -> c = c0).
+Proof.
+  unfold dq_pop_back, node_len. destruct (dq_tail d mod 64 =? 0) eqn:E; intros H; inversion H; subst; clear H;
+    cbn [dq_head dq_tail dq_hw]; (split; [lia|]); (split; [lia|]); (split; [lia|]); split.
+  - unfold cnonneg; cbn; lia.
+  - intros. exfalso. lia.
+  - apply cnonneg_c0.
+  - reflexivity.
+Qed.
+
+Lemma dq_pushes_spec k : forall d d' c, dq_tail d <= dq_hw d -> dq_pushes d k = (d', c) ->
+  dq_head d' = dq_head d /\ dq_tail d' = dq_tail d + Z.of_nat k /\
+  dq_hw d' = Z.max (dq_hw d) (dq_tail d + Z.of_nat k) /\ cnonneg c /\
   (dq_tail d / node_len = (dq_tail d + Z.of_nat k) / node_len -> c = c0).
 Proof.
-  induction k as [|k IH]; intros d d' c; unfold dq_pushes; fold dq_pushes.
-  - intros H; inversion H; subst. split; [lia|]. split; [lia|]. split; [apply cnonneg_c0|reflexivity].
+  induction k as [|k IH]; intros d d' c T; unfold dq_pushes; fold dq_pushes.
+  - intros H; inversion H; subst. split; [lia|]. split; [lia|]. split; [lia|]. split; [apply cnonneg_c0|reflexivity].
   - destruct (dq_push d) as [d1 c1] eqn:P. destruct (dq_pushes d1 k) as [d2 c2] eqn:Q.
     intros H; inversion H; subst; clear H.
-    apply dq_push_spec in P. destruct P as (P1 & P2 & P3 & P4).
-    apply IH in Q. destruct Q as (Q1 & Q2 & Q3 & Q4).
-    split; [lia|]. split; [lia|]. split.
+    apply dq_push_spec in P. destruct P as (P1 & P2 & P5 & P3 & P4).
+    apply IH in Q; [|lia]. destruct Q as (Q1 & Q2 & Q5 & Q3 & Q4).
+    split; [clear - P1 Q1; lia|]. split; [clear - P2 Q2; lia|]. split; [clear - P2 Q2 P5 Q5 T; lia|]. split.
     + apply cnonneg_add; assumption.
     + intros E. unfold node_len in *.
-      assert (c1 = c0) as -> by (apply P4; lia). assert (c2 = c0) as -> by (apply Q4; rewrite P2; lia). reflexivity.
+      assert (c1 = c0) as -> by (apply P4; clear - E; lia). assert (c2 = c0) as -> by (apply Q4; rewrite P2; clear - E; lia). reflexivity.
 Qed.
 
 Lemma dq_pops_spec k : forall d d' c, dq_pops d k = (d', c) ->
-  dq_head d' = dq_head d + Z.of_nat k /\ dq_tail d' = dq_tail d /\ cnonneg c /\
+  dq_head d' = dq_head d + Z.of_nat k /\ dq_tail d' = dq_tail d /\ dq_hw d' = dq_hw d /\ cnonneg c /\
   (dq_head d / node_len = (dq_head d + Z.of_nat k) / node_len -> c = c0).
 Proof.
   induction k as [|k IH]; intros d d' c; unfold dq_pops; fold dq_pops.
-  - intros H; inversion H; subst. split; [lia|]. split; [lia|]. split; [apply cnonneg_c0|reflexivity].
+  - intros H; inversion H; subst. split; [lia|]. split; [lia|]. split; [lia|]. split; [apply cnonneg_c0|reflexivity].
   - destruct (dq_pop d) as [d1 c1] eqn:P. destruct (dq_pops d1 k) as [d2 c2] eqn:Q.
     intros H; inversion H; subst; clear H.
-    apply dq_pop_spec in P. destruct P as (P1 & P2 & P3 & P4).
-    apply IH in Q. destruct Q as (Q1 & Q2 & Q3 & Q4).
-    split; [lia|]. split; [lia|]. split.
+    apply dq_pop_spec in P. destruct P as (P1 & P2 & P5 & P3 & P4).
+    apply IH in Q. destruct Q as (Q1 & Q2 & Q5 & Q3 & Q4).
+    split; [lia|]. split; [lia|]. split; [lia|]. split.
     + apply cnonneg_add; assumption.
     + intros E. unfold node_len in *.
       assert (c1 = c0) as -> by (apply P4; lia). assert (c2 = c0) as -> by (apply Q4; rewrite P1; lia). reflexivity.
+Qed.
+
+Lemma dq_pop_backs_spec k : forall d d' c, dq_pop_backs d k = (d', c) ->
+  dq_head d' = dq_head d /\ dq_tail d' = dq_tail d - Z.of_nat k /\ dq_hw d' = dq_hw d /\ cnonneg c /\
+  ((dq_tail d - Z.of_nat k) / node_len = dq_tail d / node_len -> c = c0).
+Proof.
+  induction k as [|k IH]; intros d d' c; unfold dq_pop_backs; fold dq_pop_backs.
+  - intros H; inversion H; subst. split; [lia|]. split; [lia|]. split; [lia|]. split; [apply cnonneg_c0|reflexivity].
+  - destruct (dq_pop_back d) as [d1 c1] eqn:P. destruct (dq_pop_backs d1 k) as [d2 c2] eqn:Q.
+    intros H; inversion H; subst; clear H.
+    apply dq_pop_back_spec in P. destruct P as (P1 & P2 & P5 & P3 & P4).
+    apply IH in Q. destruct Q as (Q1 & Q2 & Q5 & Q3 & Q4).
+    split; [lia|]. split; [lia|]. split; [lia|]. split.
+    + apply cnonneg_add; assumption.
+    + intros E. unfold node_len in *.
+      assert (c1 = c0) as -> by (apply P4; lia). assert (c2 = c0) as -> by (apply Q4; rewrite P2; lia). reflexivity.
 Qed.
 
 (* ---------- suspend points ---------- *)
@@ -194,16 +225,144 @@ Proof.
       unfold cadd; cbn [c_a]. destruct N1. lia.
 Qed.
 
+(* ---------- cost equality ---------- *)
+Lemma cost_ext a b : c_a a = c_a b -> c_ab a = c_ab b -> c_f a = c_f b -> c_fb a = c_fb b -> a = b.
+Proof. destruct a, b; cbn; intros; subst; reflexivity. Qed.
+Ltac cost_eq := apply cost_ext; unfold cadd, c0; cbn [c_a c_ab c_f c_fb]; lia.
+
+(* ---------- the cost of a suspend point depends on handle counts alone ---------- *)
+Definition sim (a b : spt) : Prop :=
+  sp_size a = sp_size b /\ sp_flag a = sp_flag b /\ (sp_flag a = true -> sp_cap a = sp_cap b).
+
+Lemma sim_refl a : sim a a. Proof. unfold sim; auto. Qed.
+
+Lemma sim_add a b h h' : sim a b ->
+  snd (sp_add a h) = snd (sp_add b h') /\ sim (fst (sp_add a h)) (fst (sp_add b h')).
+Proof.
+  unfold sim, sp_add, sp_size, inline_count. intros (S & F & C).
+  pose proof (zlen_app (sp_hs a) [h]) as La. rewrite zlen_cons, zlen_nil in La.
+  pose proof (zlen_app (sp_hs b) [h']) as Lb. rewrite zlen_cons, zlen_nil in Lb.
+  rewrite <- F. destruct (sp_flag a) eqn:Fa.
+  - rewrite <- (C eq_refl), <- S. destruct (zlen (sp_hs a) =? sp_cap a); cbn [fst snd sp_hs sp_flag sp_cap];
+      (split; [reflexivity|]); (split; [lia|]); (split; [reflexivity|]); intros _; lia.
+  - rewrite <- S. destruct (zlen (sp_hs a) <? 3); cbn [fst snd sp_hs sp_flag sp_cap];
+      (split; [reflexivity|]); (split; [lia|]); (split; [reflexivity|]); try discriminate; intros _; lia.
+Qed.
+
+Lemma sim_add_all l : forall l' a b, length l = length l' -> sim a b ->
+  snd (sp_add_all a l) = snd (sp_add_all b l') /\ sim (fst (sp_add_all a l)) (fst (sp_add_all b l')).
+Proof.
+  induction l as [|h l IH]; intros [|h' l'] a b L S; try discriminate; unfold sp_add_all; fold sp_add_all.
+  - cbn [fst snd]. auto.
+  - destruct (sim_add a b h h' S) as (E1 & S1).
+    destruct (sp_add a h) as [a1 c1]. destruct (sp_add b h') as [b1 d1]. cbn [fst snd] in E1, S1.
+    assert (length l = length l') as L' by (cbn in L; lia).
+    destruct (IH l' a1 b1 L' S1) as (E2 & S2).
+    destruct (sp_add_all a1 l) as [a2 c2]. destruct (sp_add_all b1 l') as [b2 d2]. cbn [fst snd] in *.
+    subst. auto.
+Qed.
+
+Lemma sim_clear a b : sim a b -> sp_clear_cost a = sp_clear_cost b.
+Proof. unfold sim, sp_clear_cost. intros (S & F & C). rewrite <- F. destruct (sp_flag a); [rewrite (C eq_refl)|]; reflexivity. Qed.
+
+Lemma sp_add_all_app l1 : forall l2 s,
+  fst (sp_add_all s (l1 ++ l2)) = fst (sp_add_all (fst (sp_add_all s l1)) l2) /\
+  snd (sp_add_all s (l1 ++ l2)) = cadd (snd (sp_add_all s l1)) (snd (sp_add_all (fst (sp_add_all s l1)) l2)).
+Proof.
+  induction l1 as [|h l1 IH]; intros l2 s; cbn [app].
+  - unfold sp_add_all at 2 3 5 6; fold sp_add_all. cbn [fst snd]. split; [reflexivity|]. symmetry. apply cadd_c0_l.
+  - assert (forall t, sp_add_all s (h :: t) = let '(s1, c1) := sp_add s h in let '(s2, c2) := sp_add_all s1 t in (s2, cadd c1 c2)) as U
+      by reflexivity.
+    rewrite !U. clear U. destruct (sp_add s h) as [s1 c1]. destruct (IH l2 s1) as (A & B).
+    destruct (sp_add_all s1 (l1 ++ l2)) as [s2 c2]. destruct (sp_add_all s1 l1) as [s3 c3]. cbn [fst snd] in *.
+    split; [exact A|]. rewrite B. cost_eq.
+Qed.
+
+Lemma mk_sp_plus a b : 0 <= a -> 0 <= b ->
+  fst (sp_add_all (mk_sp a) (repeat dummy (n b))) = mk_sp (a + b).
+Proof.
+  intros A B. unfold mk_sp, n. rewrite Z2Nat.inj_add by assumption. rewrite repeat_app.
+  symmetry. apply (sp_add_all_app (repeat dummy (Z.to_nat a)) (repeat dummy (Z.to_nat b)) sp_empty).
+Qed.
+
+Lemma mk_sp_wf k : sp_wf (mk_sp k) /\ (0 <= k -> sp_size (mk_sp k) = k).
+Proof.
+  unfold mk_sp. destruct (sp_add_all sp_empty (repeat dummy (n k))) as [s c] eqn:A. cbn [fst].
+  destruct (sp_add_all_spec _ _ _ _ sp_wf_empty A) as (W & H & _). split; [exact W|].
+  intros K. unfold sp_size. rewrite H. cbn [sp_hs sp_empty app]. unfold zlen, n. rewrite repeat_length. lia.
+Qed.
+
+(* canonical suspend point: well formed and with the capacity of one that grew from empty by single adds *)
+Definition sp_can (s : spt) : Prop := sp_wf s /\ sim s (mk_sp (sp_size s)).
+
+Lemma sp_can_empty : sp_can sp_empty.
+Proof. split; [apply sp_wf_empty|]. apply sim_refl. Qed.
+
+Lemma add_all_can l s s' c : sp_can s -> sp_add_all s l = (s', c) ->
+  sp_can s' /\ sp_size s' = sp_size s + zlen l /\ c = grow_cost (sp_size s) (sp_size s').
+Proof.
+  intros (W & S) A. destruct (sp_add_all_spec _ _ _ _ W A) as (W' & H & _).
+  assert (sp_size s' = sp_size s + zlen l) as Sz by (unfold sp_size; rewrite H, zlen_app; reflexivity).
+  pose proof (zlen_nonneg (sp_hs s)) as N0. pose proof (zlen_nonneg l) as N1. fold (sp_size s) in N0.
+  assert (length l = length (repeat dummy (n (sp_size s' - sp_size s)))) as L.
+  { rewrite repeat_length, Sz. unfold n, zlen. replace (sp_size s + Z.of_nat (length l) - sp_size s) with (Z.of_nat (length l)) by lia.
+    rewrite Nat2Z.id. reflexivity. }
+  destruct (sim_add_all l _ s (mk_sp (sp_size s)) L S) as (E & S').
+  rewrite A in E, S'. cbn [fst snd] in E, S'.
+  split; [split; [exact W'|]|split; [exact Sz|exact E]].
+  rewrite mk_sp_plus in S' by lia. replace (sp_size s + (sp_size s' - sp_size s)) with (sp_size s') in S' by lia. exact S'.
+Qed.
+
+Lemma add_can s h s' c : sp_can s -> sp_add s h = (s', c) ->
+  sp_can s' /\ sp_size s' = sp_size s + 1 /\ c = grow_cost (sp_size s) (sp_size s').
+Proof.
+  intros C A. assert (sp_add_all s [h] = (s', c)) as A'.
+  { unfold sp_add_all. rewrite A. rewrite cadd_c0_r. reflexivity. }
+  destruct (add_all_can _ _ _ _ C A') as (C' & Sz & E). rewrite zlen_cons, zlen_nil in Sz.
+  split; [exact C'|]. split; [lia|exact E].
+Qed.
+
+Lemma clear_can s : sp_can s -> sp_clear_cost s = clear_cost (sp_size s).
+Proof. intros (_ & S). unfold clear_cost. apply sim_clear. exact S. Qed.
+
+Lemma merge_can d s d' c : sp_can d -> sp_can s -> sp_merge d s = (d', c) ->
+  sp_can d' /\ sp_size d' = sp_size d + sp_size s /\
+  c = cadd (grow_cost (sp_size d) (sp_size d')) (clear_cost (sp_size s)).
+Proof.
+  intros Cd Cs. unfold sp_merge. destruct (sp_add_all d (sp_hs s)) as [d1 c1] eqn:A.
+  intros H; inversion H; subst; clear H.
+  destruct (add_all_can _ _ _ _ Cd A) as (C' & Sz & E).
+  split; [exact C'|]. split; [exact Sz|]. rewrite E, (clear_can s Cs). reflexivity.
+Qed.
+
+Lemma grow_small a b : 0 <= a -> a <= b -> b <= 3 -> grow_cost a b = c0.
+Proof.
+  intros A B C. unfold grow_cost. destruct (mk_sp_wf a) as (W & Sz).
+  destruct (sp_add_all (mk_sp a) (repeat dummy (n (b - a)))) as [s c] eqn:E. cbn [snd].
+  destruct (sp_add_all_spec _ _ _ _ W E) as (_ & H & _ & Z). apply Z.
+  unfold sp_size. rewrite H, zlen_app. fold (sp_size (mk_sp a)). rewrite (Sz A).
+  unfold zlen, n. rewrite repeat_length. lia.
+Qed.
+
+Lemma clear_small k : 0 <= k -> k <= 3 -> clear_cost k = c0.
+Proof.
+  intros A B. unfold clear_cost. destruct (mk_sp_wf k) as (W & Sz). apply (sp_clear_cost_spec _ W). rewrite (Sz A). exact B.
+Qed.
+
+Lemma grow_same a : grow_cost a a = c0.
+Proof. unfold grow_cost. replace (a - a) with 0 by lia. reflexivity. Qed.
+
 (* ---------- states ---------- *)
 Definition same3 (st st' : state) : Prop := slots st' = slots st /\ rq st' = rq st /\ dq st' = dq st.
 
-Definition Inv (st : state) : Prop :=
-  Forall sp_wf (slots st) /\ 0 <= dq_head (dq st) /\ dq_head (dq st) + zlen (rq st) = dq_tail (dq st).
+Definition Inv (coro : bool) (st : state) : Prop :=
+  Forall sp_can (slots st) /\ 0 <= dq_head (dq st) /\ dq_head (dq st) + zlen (rq st) = dq_tail (dq st) /\
+  dq_tail (dq st) <= dq_hw (dq st) /\ (coro = false -> rq st = [] /\ dq_tail (dq st) = 0).
 
 Lemma same3_refl st : same3 st st. Proof. unfold same3; auto. Qed.
 Lemma same3_trans a b c : same3 a b -> same3 b c -> same3 a c.
 Proof. unfold same3. intros (A1 & A2 & A3) (B1 & B2 & B3). rewrite B1, B2, B3. auto. Qed.
-Lemma Inv_same3 st st' : same3 st st' -> Inv st -> Inv st'.
+Lemma Inv_same3 coro st st' : same3 st st' -> Inv coro st -> Inv coro st'.
 Proof. unfold same3, Inv. intros (A1 & A2 & A3). rewrite A1, A2, A3. auto. Qed.
 
 Lemma same3_setf st f x : same3 st (setf st f x). Proof. unfold same3; cbn; auto. Qed.
@@ -216,11 +375,13 @@ Lemma same3_addlive st k : same3 st (addlive st k). Proof. unfold same3; cbn; au
 
 Lemma same3_release st w : same3 st (release_waiter st w).
 Proof. unfold release_waiter. destruct w as [k i]. destruct (k =? 1); [|destruct (k =? 2)]; auto with s3. Qed.
+Lemma live_release st w : live (release_waiter st w) = live st.
+Proof. unfold release_waiter. destruct w as [k i]. destruct (k =? 1); [|destruct (k =? 2)]; reflexivity. Qed.
 
-Lemma Inv_st0 : Inv st0.
+Lemma Inv_st0 coro : Inv coro st0.
 Proof.
-  unfold Inv, st0; cbn [slots dq rq dq_head dq_tail dq0]. split; [|split; [lia|reflexivity]].
-  apply Forall_forall. intros x H. apply repeat_spec in H. subst. apply sp_wf_empty.
+  unfold Inv, st0; cbn [slots dq rq dq_head dq_tail dq_hw dq0]. split; [|repeat split; try lia; reflexivity].
+  apply Forall_forall. intros x H. apply repeat_spec in H. subst. apply sp_can_empty.
 Qed.
 
 Lemma Forall_set_nth {A} (P : A -> Prop) l i x : Forall P l -> P x -> Forall P (set_nth l i x).
@@ -228,442 +389,655 @@ Proof.
   intros H Px. revert i. induction H as [|y l Py Hl IH]; intros [|i]; cbn [set_nth]; constructor; auto.
 Qed.
 
-Lemma gets_wf st s : Forall sp_wf (slots st) -> sp_wf (gets st s).
+Lemma map_set_nth {A B} (f : A -> B) l i x : map f (set_nth l i x) = set_nth (map f l) i (f x).
+Proof. revert i; induction l as [|y l IH]; intros [|i]; cbn [set_nth map]; try reflexivity. rewrite IH. reflexivity. Qed.
+
+Lemma gets_can st s : Forall sp_can (slots st) -> sp_can (gets st s).
 Proof.
   intros H. unfold gets. destruct (nth_in_or_default (n s) (slots st) sp_empty) as [I|E].
   - rewrite Forall_forall in H. apply H. exact I.
-  - rewrite E. apply sp_wf_empty.
+  - rewrite E. apply sp_can_empty.
 Qed.
 
-Lemma run_item_same st it st' e : run_item st it = (st', e) -> same3 st st'.
+Definition sizes (st : state) : list Z := map sp_size (slots st).
+Lemma sizes_nth st s : nth (n s) (sizes st) 0 = sp_size (gets st s).
+Proof. unfold sizes, gets. change 0 with (sp_size sp_empty). apply map_nth. Qed.
+
+Lemma run_item_spec st it st' ev k : run_item st it = (st', ev, k) ->
+  same3 st st' /\ 0 <= k /\ live st' = live st - k.
 Proof.
-  unfold run_item. destruct it as [[k w] o]. destruct (k =? 0); intros H; inversion H; subst.
-  - auto with s3.
-  - eapply same3_trans; [apply same3_setm|apply same3_addlive].
+  unfold run_item. destruct it as [[k0 w] o].
+  destruct (k0 =? 0); [|destruct (k0 =? 1); [|destruct (k0 =? 2)]].
+  - intros H; inversion H; subst. split; [auto with s3|]. cbn. lia.
+  - intros H; inversion H; subst. split; [eapply same3_trans; [apply same3_setm|apply same3_addlive]|]. cbn. lia.
+  - destruct (f_st (getf st o) =? 3); intros H; inversion H; subst; (split; [auto with s3|]); cbn; lia.
+  - destruct (m_st (getm st o) =? 0); intros H; inversion H; subst.
+    + split; [eapply same3_trans; [apply same3_setm|apply same3_addlive]|]. cbn. lia.
+    + split; [auto with s3|]. cbn. lia.
 Qed.
 
-Lemma run_items_same l : forall st st' ev, run_items st l = (st', ev) -> same3 st st'.
+Lemma run_items_spec l : forall st st' ev k, run_items st l = (st', ev, k) ->
+  same3 st st' /\ 0 <= k /\ live st' = live st - k.
 Proof.
-  induction l as [|it l IH]; intros st st' ev; unfold run_items; fold run_items.
-  - intros H; inversion H; subst. apply same3_refl.
-  - destruct (run_item st it) as [st1 e] eqn:R. destruct (run_items st1 l) as [st2 es] eqn:Q.
-    intros H; inversion H; subst. eapply same3_trans; [eapply run_item_same; exact R|eapply IH; exact Q].
+  induction l as [|it l IH]; intros st st' ev k; unfold run_items; fold run_items.
+  - intros H; inversion H; subst. split; [apply same3_refl|]. lia.
+  - destruct (run_item st it) as [[st1 e] k1] eqn:R. destruct (run_items st1 l) as [[st2 es] k2] eqn:Q.
+    intros H; inversion H; subst. apply run_item_spec in R. apply IH in Q.
+    destruct R as (R1 & R2 & R3). destruct Q as (Q1 & Q2 & Q3).
+    split; [eapply same3_trans; eassumption|]. lia.
 Qed.
 
-(* the driver suspends and the queue is drained *)
-Lemma suspend_drain_spec st first pushed st' ev c k : Inv st -> suspend_drain st first pushed = (st', ev, c, k) ->
-  Inv st' /\ slots st' = slots st /\ dq_tail (dq st) <= dq_tail (dq st') /\ cnonneg c /\ 0 <= k /\
-  (dq_tail (dq st') <= 63 -> c = c0).
+(* the driver suspends and the queue is drained (coroutine mode) *)
+Lemma suspend_drain_spec st first pushed st' ev c k : Inv true st -> suspend_drain st first pushed = (st', ev, c, k) ->
+  Inv true st' /\ slots st' = slots st /\ dq_hw (dq st) <= dq_hw (dq st') /\ cnonneg c /\ 0 <= k /\
+  (dq_hw (dq st') <= 63 -> c = c0) /\ live st' = live st - k.
 Proof.
-  intros (I1 & I2 & I3). unfold suspend_drain.
+  intros (I1 & I2 & I3 & I4 & _). unfold suspend_drain.
   destruct (dq_pushes (dq st) (length pushed + 1)) as [d1 c1] eqn:P.
   destruct (dq_pops d1 (length (rq st) + length pushed + 1)) as [d2 c2] eqn:Q.
-  destruct (run_items (setq st [] d2) (first ++ rq st ++ pushed)) as [st1 ev1] eqn:R.
+  destruct (run_items (setq st [] d2) (first ++ rq st ++ pushed)) as [[st1 ev1] k1] eqn:R.
   intros H; inversion H; subst; clear H.
-  apply dq_pushes_spec in P. destruct P as (P1 & P2 & P3 & P4).
-  apply dq_pops_spec in Q. destruct Q as (Q1 & Q2 & Q3 & Q4).
-  apply run_items_same in R. destruct R as (R1 & R2 & R3). cbn [setq slots rq dq] in R1, R2, R3.
+  apply dq_pushes_spec in P; [|exact I4]. destruct P as (P1 & P2 & P5 & P3 & P4).
+  apply dq_pops_spec in Q. destruct Q as (Q1 & Q2 & Q5 & Q3 & Q4).
+  apply run_items_spec in R. destruct R as ((R1 & R2 & R3) & K & Lv). cbn [setq slots rq dq live] in R1, R2, R3, Lv.
   unfold zlen in *. unfold node_len in *.
-  split; [|split; [exact R1|split; [|split; [|split]]]].
-  - unfold Inv. rewrite R1, R2, R3. split; [exact I1|]. cbn [length]. unfold zlen. cbn [length]. lia.
+  split; [|split; [exact R1|split; [|split; [|split; [exact K|split; [|exact Lv]]]]]].
+  - unfold Inv. rewrite R1, R2, R3. split; [exact I1|]. cbn [length]. unfold zlen. cbn [length].
+    split; [lia|]. split; [lia|]. split; [lia|discriminate].
   - rewrite R3. lia.
   - apply cnonneg_add; assumption.
-  - lia.
-  - rewrite R3. intros T. rewrite P4, Q4; [reflexivity| |]; lia.
+  - rewrite R3. intros T.
+    assert (c1 = c0) as -> by (apply P4; lia). assert (c2 = c0) as -> by (apply Q4; lia). reflexivity.
 Qed.
 
-Lemma dispose_spec coro how s st sp st' ev csp cdq k sps : Inv st -> sp_wf sp ->
+Lemma dispose_spec coro how s st sp st' ev csp cdq k sps : Inv coro st -> sp_can sp ->
   dispose coro how s st sp = (st', ev, csp, cdq, k, sps) ->
-  Inv st' /\ dq_tail (dq st) <= dq_tail (dq st') /\ (dq_tail (dq st') <= 63 -> cdq = c0) /\
-  (coro = false -> cdq = c0 /\ dq st' = dq st /\ rq st' = rq st) /\
-  cnonneg csp /\ 0 <= k /\ (sps <= 3 -> csp = c0).
+  Inv coro st' /\ dq_hw (dq st) <= dq_hw (dq st') /\ (dq_hw (dq st') <= 63 -> cdq = c0) /\
+  (coro = false -> cdq = c0) /\ 0 <= k /\ live st' = live st - k /\
+  (if how =? 2
+   then sps = sp_size (gets st s) + sp_size sp /\
+        csp = cadd (grow_cost (sp_size (gets st s)) sps) (clear_cost (sp_size sp)) /\
+        sizes st' = upd (sizes st) s sps
+   else sps = sp_size sp /\ csp = clear_cost (sp_size sp) /\ slots st' = slots st).
 Proof.
-  intros I W. unfold dispose. destruct (how =? 2) eqn:H2.
+  intros I C. unfold dispose. destruct (how =? 2) eqn:H2.
   { destruct (sp_merge (gets st s) sp) as [d1 c] eqn:M. intros H; inversion H; subst; clear H.
-    destruct I as (I1 & I2 & I3).
-    destruct (sp_merge_spec _ _ _ _ (gets_wf st s I1) W M) as (W1 & _ & N1 & Z1).
-    split; [|split; [cbn; lia|split; [auto|split; [auto|split; [exact N1|split; [lia|exact Z1]]]]]].
-    unfold Inv; cbn [sets slots rq dq]. split; [|auto]. apply Forall_set_nth; assumption. }
-  destruct (sp_clear_cost_spec sp W) as (NC & ZC).
+    destruct I as (I1 & I2 & I3 & I4 & I5).
+    destruct (merge_can _ _ _ _ (gets_can st s I1) C M) as (C1 & Sz & E).
+    split; [|split; [cbn; lia|split; [auto|split; [auto|split; [lia|split; [cbn; lia|]]]]]].
+    - unfold Inv; cbn [sets slots rq dq]. split; [|auto]. apply Forall_set_nth; assumption.
+    - split; [exact Sz|]. split; [exact E|]. unfold sizes; cbn [sets slots]. unfold upd. apply map_set_nth. }
+  pose proof (clear_can sp C) as CC.
   destruct coro; cbn [negb].
-  2:{ destruct (run_items st (sp_hs sp)) as [st1 ev1] eqn:R. intros H; inversion H; subst; clear H.
-      apply run_items_same in R. pose proof (Inv_same3 _ _ R I) as I'. destruct R as (R1 & R2 & R3).
-      split; [exact I'|]. rewrite R3. split; [lia|]. split; [auto|]. split; [auto|]. split; [exact NC|].
-      split; [apply zlen_nonneg|exact ZC]. }
+  2:{ destruct (run_items st (sp_hs sp)) as [[st1 ev1] k1] eqn:R. intros H; inversion H; subst; clear H.
+      apply run_items_spec in R. destruct R as (R & K & Lv). pose proof (Inv_same3 _ _ _ R I) as I'. destruct R as (R1 & R2 & R3).
+      split; [exact I'|]. rewrite R3. split; [lia|]. split; [auto|]. split; [auto|]. split; [exact K|]. split; [exact Lv|].
+      split; [reflexivity|]. split; [exact CC|exact R1]. }
   destruct (how =? 0) eqn:H0.
   { destruct (dq_pushes (dq st) (length (sp_hs sp))) as [d1 c] eqn:P. intros H; inversion H; subst; clear H.
-    apply dq_pushes_spec in P. destruct P as (P1 & P2 & P3 & P4). destruct I as (I1 & I2 & I3).
+    destruct I as (I1 & I2 & I3 & I4 & I5).
+    apply dq_pushes_spec in P; [|exact I4]. destruct P as (P1 & P2 & P5 & P3 & P4).
     unfold node_len in *.
-    split; [|split; [cbn [setq dq]; lia|split; [|split; [discriminate|split; [exact NC|split; [lia|exact ZC]]]]]].
-    - unfold Inv; cbn [setq slots rq dq]. split; [exact I1|]. rewrite zlen_app. unfold zlen in *. lia.
-    - cbn [setq dq]. intros T. apply P4. pose proof (zlen_nonneg (rq st)). lia. }
+    split; [|split; [cbn [setq dq]; lia|split; [|split; [discriminate|split; [lia|split; [cbn; lia|]]]]]].
+    - unfold Inv; cbn [setq slots rq dq]. split; [exact I1|]. rewrite zlen_app. unfold zlen in *.
+      split; [lia|]. split; [lia|]. split; [lia|discriminate].
+    - cbn [setq dq]. intros T. apply P4. pose proof (zlen_nonneg (rq st)). lia.
+    - split; [reflexivity|]. split; [exact CC|reflexivity]. }
   destruct (sp_hs sp) as [|h0 t0] eqn:E.
   { intros H; inversion H; subst; clear H.
-    split; [exact I|]. split; [lia|]. split; [auto|]. split; [auto|]. split; [exact NC|]. split; [lia|exact ZC]. }
+    split; [exact I|]. split; [lia|]. split; [auto|]. split; [discriminate|]. split; [lia|]. split; [lia|].
+    split; [reflexivity|]. split; [exact CC|reflexivity]. }
   destruct (suspend_drain st [last (h0 :: t0) h0] (removelast (h0 :: t0))) as [[[st1 ev1] c] k1] eqn:D.
   intros H; inversion H; subst; clear H.
-  destruct (suspend_drain_spec _ _ _ _ _ _ _ I D) as (I' & S1 & T1 & N1 & K1 & Z1).
-  split; [exact I'|]. split; [exact T1|]. split; [exact Z1|]. split; [discriminate|]. split; [exact NC|]. split; [exact K1|exact ZC].
+  destruct (suspend_drain_spec _ _ _ _ _ _ _ I D) as (I' & S1 & T1 & N1 & K1 & Z1 & Lv).
+  split; [exact I'|]. split; [exact T1|]. split; [exact Z1|]. split; [discriminate|]. split; [exact K1|]. split; [exact Lv|].
+  split; [reflexivity|]. split; [exact CC|exact S1].
 Qed.
 
-Lemma walk_size_mono f out v l : forall st sp st' sp' c cb sy, sp_wf sp ->
-  walk f out v st sp l = (st', sp', c, cb, sy) -> sp_size sp <= sp_size sp'.
+(* create_suspend_point around a resolution *)
+Lemma csp_wrap_spec coro st sp st' ss c1 c2 : Inv coro st -> sp_can sp -> csp_wrap st sp = (st', ss, c1, c2) ->
+  Inv coro st' /\ slots st' = slots st /\ live st' = live st /\ dq_hw (dq st) <= dq_hw (dq st') /\
+  sp_can ss /\ sp_size ss = sp_size sp /\
+  c1 = cadd (clear_cost (sp_size sp)) (grow_cost 0 (sp_size sp)) /\
+  (dq_hw (dq st') <= 63 -> c2 = c0) /\ (coro = false -> sp_size sp <= 63 -> c2 = c0).
 Proof.
-  induction l as [|w l IH]; intros st sp st' sp' c cb sy W; unfold walk; fold walk.
-  - intros H; inversion H; subst. lia.
-  - destruct w as [k i]. destruct (k =? 0).
-    + destruct (sp_add sp (0, i, f)) as [sp1 c1] eqn:A.
-      destruct (walk f out v (release_waiter st (k, i)) sp1 l) as [[[[st2 sp2] c2] cb2] sy2] eqn:Q.
-      intros H; inversion H; subst; clear H.
-      destruct (sp_add_spec _ _ _ _ W A) as (W1 & H1 & _).
-      pose proof (IH _ _ _ _ _ _ _ W1 Q) as M. unfold sp_size in *. rewrite H1, zlen_app, zlen_cons, zlen_nil in M.
-      lia.
-    + destruct (walk f out v (release_waiter st (k, i)) sp l) as [[[[st2 sp2] c2] cb2] sy2] eqn:Q.
-      pose proof (IH _ _ _ _ _ _ _ W Q) as M.
-      destruct (k =? 2); intros H; inversion H; subst; clear H; exact M.
+  intros (I1 & I2 & I3 & I4 & I5) C. unfold csp_wrap.
+  destruct (dq_pushes (dq st) (length (sp_hs sp))) as [d1 e1] eqn:P.
+  destruct (dq_pop_backs d1 (length (sp_hs sp))) as [d2 e2] eqn:Q.
+  destruct (sp_add_all sp_empty (rev (sp_hs sp))) as [s1 e3] eqn:A.
+  intros H; inversion H; subst; clear H.
+  apply dq_pushes_spec in P; [|exact I4]. destruct P as (P1 & P2 & P5 & P3 & P4).
+  apply dq_pop_backs_spec in Q. destruct Q as (Q1 & Q2 & Q5 & Q3 & Q4).
+  destruct (add_all_can _ _ _ _ sp_can_empty A) as (C1 & Sz & E).
+  assert (sp_size ss = sp_size sp) as Sz'.
+  { rewrite Sz. change (sp_size sp_empty) with 0. unfold sp_size, zlen. rewrite rev_length. lia. }
+  unfold node_len, sp_size, zlen in *.
+  split; [|split; [reflexivity|split; [reflexivity|split; [cbn [setq dq]; lia|split; [exact C1|split; [exact Sz'|split; [|split]]]]]]].
+  - unfold Inv; cbn [setq slots rq dq]; unfold zlen. split; [exact I1|]. split; [lia|]. split; [lia|]. split; [lia|].
+    intros F. destruct (I5 F). split; [assumption|lia].
+  - rewrite (clear_can sp C), E. unfold sp_size, zlen. cbn [sp_hs sp_empty length]. rewrite Sz'. reflexivity.
+  - cbn [setq dq]. intros T.
+    assert (e1 = c0) as -> by (apply P4; lia). assert (e2 = c0) as -> by (apply Q4; lia). reflexivity.
+  - intros F L. destruct (I5 F) as (_ & T0).
+    assert (e1 = c0) as -> by (apply P4; lia). assert (e2 = c0) as -> by (apply Q4; lia). reflexivity.
 Qed.
 
-Lemma walk_spec f out v l : forall st sp st' sp' c cb sy, sp_wf sp ->
+(* ---------- resolving: the chain walk ---------- *)
+Definition coro_waiters (l : list waiter) : list waiter := filter (fun w => fst w =? 0) l.
+Definition witems (f : Z) (l : list waiter) : list item := map (fun w => (0, snd w, f)) (coro_waiters l).
+
+Lemma walk_add_all f out v l : forall st sp st' sp' c cb sy,
   walk f out v st sp l = (st', sp', c, cb, sy) ->
-  same3 st st' /\ sp_wf sp' /\ cnonneg c /\ (sp_size sp' <= 3 -> c = c0).
+  sp_add_all sp (witems f l) = (sp', c) /\ same3 st st' /\ live st' = live st.
 Proof.
-  induction l as [|w l IH]; intros st sp st' sp' c cb sy W; unfold walk; fold walk.
-  - intros H; inversion H; subst. split; [apply same3_refl|]. split; [exact W|]. split; [apply cnonneg_c0|reflexivity].
-  - destruct w as [k i]. destruct (k =? 0) eqn:K.
+  induction l as [|w l IH]; intros st sp st' sp' c cb sy; unfold walk; fold walk.
+  - intros H; inversion H; subst. split; [reflexivity|]. split; [apply same3_refl|reflexivity].
+  - destruct w as [k i]. unfold witems, coro_waiters. cbn [filter fst]. fold (coro_waiters l). destruct (k =? 0) eqn:K.
     + destruct (sp_add sp (0, i, f)) as [sp1 c1] eqn:A.
       destruct (walk f out v (release_waiter st (k, i)) sp1 l) as [[[[st2 sp2] c2] cb2] sy2] eqn:Q.
       intros H; inversion H; subst; clear H.
-      destruct (sp_add_spec _ _ _ _ W A) as (W1 & H1 & N1 & Z1 & _).
-      destruct (IH _ _ _ _ _ _ _ W1 Q) as (S & W2 & N2 & Z2).
-      pose proof (walk_size_mono _ _ _ _ _ _ _ _ _ _ _ W1 Q) as M.
-      split; [eapply same3_trans; [apply same3_release|exact S]|]. split; [exact W2|]. split; [apply cnonneg_add; assumption|].
-      intros L. rewrite Z2 by exact L. rewrite Z1; [reflexivity|lia].
+      destruct (IH _ _ _ _ _ _ _ Q) as (E & S & Lv).
+      cbn [map snd]. unfold sp_add_all; fold sp_add_all. rewrite A. fold (witems f l). rewrite E.
+      split; [reflexivity|]. split; [eapply same3_trans; [apply same3_release|exact S]|]. rewrite Lv. apply live_release.
     + destruct (walk f out v (release_waiter st (k, i)) sp l) as [[[[st2 sp2] c2] cb2] sy2] eqn:Q.
-      destruct (IH _ _ _ _ _ _ _ W Q) as (S & W2 & N2 & Z2).
+      destruct (IH _ _ _ _ _ _ _ Q) as (E & S & Lv). fold (witems f l).
       destruct (k =? 2); intros H; inversion H; subst; clear H;
-        (split; [eapply same3_trans; [apply same3_release|exact S]|]; split; [exact W2|]; split; [exact N2|exact Z2]).
+        (split; [exact E|]; split; [eapply same3_trans; [apply same3_release|exact S]|]; rewrite Lv; apply live_release).
 Qed.
+
+Lemma zlen_witems f l : zlen (witems f l) = zlen (coro_waiters l).
+Proof. unfold witems, zlen. rewrite map_length. reflexivity. Qed.
 
 (* ---------- one step ---------- *)
 Definition frame_ok (heap : bool) (x : op) (o : obs) : Prop :=
   c_a (o_cfr o) = (if heap then frames_of x else 0) /\ 0 <= c_f (o_cfr o) /\ (heap = false -> c_f (o_cfr o) = 0).
 
 Definition step_ok (coro heap : bool) (st : state) (x : op) (st' : state) (o : obs) : Prop :=
-  Inv st' /\ dq_tail (dq st) <= dq_tail (dq st') /\
-  (dq_tail (dq st') <= 63 -> o_cdq o = c0) /\
-  (coro = false -> o_cdq o = c0 /\ dq st' = dq st /\ rq st' = rq st) /\
-  (o = rejected \/ (o_st o = 0 /\ (o_sps o <= 3 -> o_csp o = c0) /\ frame_ok heap x o)).
+  Inv coro st' /\ dq_hw (dq st) <= dq_hw (dq st') /\
+  (dq_hw (dq st') <= 63 -> o_cdq o = c0) /\
+  (coro = false -> o_sps o <= 63 -> o_cdq o = c0) /\
+  ((o = rejected /\ st' = st) \/
+   (o_st o = 0 /\ frame_ok heap x o /\
+    (heap = true -> c_a (o_cfr o) - c_f (o_cfr o) = live st' - live st) /\
+    sp_budget (sizes st) x (o_sps o) = Some (o_csp o, sizes st'))).
 
-Lemma rejected_ok (coro heap : bool) st x : Inv st -> step_ok coro heap st x st rejected.
+Lemma rejected_ok (coro heap : bool) st x : Inv coro st -> step_ok coro heap st x st rejected.
 Proof.
-  intros I. unfold step_ok, rejected; cbn [o_st o_cdq]. split; [exact I|]. split; [lia|]. split; [auto|]. split; [auto|]. left; reflexivity.
+  intros I. unfold step_ok, rejected; cbn [o_st o_cdq]. split; [exact I|]. split; [lia|]. split; [auto|]. split; [auto|]. left; auto.
 Qed.
 
 Lemma frames_freed_ok (heap : bool) k : 0 <= k ->
-  c_a (frames_freed heap k) = 0 /\ 0 <= c_f (frames_freed heap k) /\ (heap = false -> c_f (frames_freed heap k) = 0).
+  c_a (frames_freed heap k) = 0 /\ 0 <= c_f (frames_freed heap k) /\ (heap = false -> c_f (frames_freed heap k) = 0) /\
+  (heap = true -> c_f (frames_freed heap k) = k).
 Proof. intros K. unfold frames_freed. destruct heap; cbn [c_a c_f c0]; repeat split; try lia; discriminate. Qed.
 
 Lemma frame_new_freed_ok (heap : bool) k : 0 <= k ->
   c_a (cadd (frame_new heap) (frames_freed heap k)) = (if heap then 1 else 0) /\
   0 <= c_f (cadd (frame_new heap) (frames_freed heap k)) /\
-  (heap = false -> c_f (cadd (frame_new heap) (frames_freed heap k)) = 0).
+  (heap = false -> c_f (cadd (frame_new heap) (frames_freed heap k)) = 0) /\
+  (heap = true -> c_f (cadd (frame_new heap) (frames_freed heap k)) = k).
 Proof.
   intros K. unfold frames_freed, frame_new, cadd, c_alloc. destruct heap; cbn [c_a c_f c0]; repeat split; try lia; discriminate.
 Qed.
 
-Lemma simple_ok (coro heap : bool) st x st' res cfr ev : Inv st -> same3 st st' ->
+Definition plain_op (x : op) : Prop :=
+  match x with FResolve _ _ _ _ _ => False | MUnlock _ _ _ => False | SpFlush _ _ => False | _ => True end.
+
+Lemma budget_plain sl x sps : plain_op x -> sp_budget sl x sps = Some (c0, sl).
+Proof. destruct x; cbn; try tauto; reflexivity. Qed.
+
+(* a step that touches no suspend point, no queue; cfr given *)
+Lemma simple_ok (coro heap : bool) st x st' res sps cfr ev : Inv coro st -> same3 st st' -> plain_op x ->
   c_a cfr = (if heap then frames_of x else 0) -> 0 <= c_f cfr -> (heap = false -> c_f cfr = 0) ->
-  step_ok coro heap st x st' (mkObs 0 res 0 cfr c0 c0 ev).
+  (heap = true -> c_a cfr - c_f cfr = live st' - live st) ->
+  step_ok coro heap st x st' (mkObs 0 res sps cfr c0 c0 ev).
 Proof.
-  intros I S A B C. pose proof (Inv_same3 _ _ S I) as I'. destruct S as (S1 & S2 & S3).
+  intros I S P A B C L. pose proof (Inv_same3 _ _ _ S I) as I'. destruct S as (S1 & S2 & S3).
   unfold step_ok; cbn [o_st o_cdq o_sps o_csp]. split; [exact I'|]. rewrite S3. split; [lia|]. split; [auto|]. split; [auto|].
-  right. split; [reflexivity|]. split; [auto|]. unfold frame_ok; cbn [o_cfr]. auto.
+  right. split; [reflexivity|]. split; [unfold frame_ok; cbn [o_cfr]; auto|]. split; [exact L|].
+  unfold sizes. rewrite S1. apply budget_plain. exact P.
 Qed.
 
 Lemma c0_frames (heap : bool) x : frames_of x = 0 -> c_a c0 = (if heap then frames_of x else 0).
 Proof. intros ->. destruct heap; reflexivity. Qed.
 
-Lemma after_start_spec coro mode st ev0 st' ev c k : Inv st -> mode_ok coro mode = true ->
+Lemma after_start_spec coro mode st ev0 st' ev c k : Inv coro st -> mode_ok coro mode = true ->
   after_start coro mode st ev0 = (st', ev, c, k) ->
-  Inv st' /\ dq_tail (dq st) <= dq_tail (dq st') /\ cnonneg c /\ 0 <= k /\ (dq_tail (dq st') <= 63 -> c = c0) /\
-  (coro = false -> c = c0 /\ dq st' = dq st /\ rq st' = rq st).
+  Inv coro st' /\ slots st' = slots st /\ dq_hw (dq st) <= dq_hw (dq st') /\ 0 <= k /\
+  (dq_hw (dq st') <= 63 -> c = c0) /\ (coro = false -> c = c0) /\ live st' = live st - k.
 Proof.
   intros I M. unfold after_start. destruct (mode =? 1) eqn:E.
-  - destruct (suspend_drain st [] []) as [[[st1 ev1] c1] k1] eqn:D. intros H; inversion H; subst; clear H.
-    destruct (suspend_drain_spec _ _ _ _ _ _ _ I D) as (I' & S1 & T1 & N1 & K1 & Z1).
-    split; [exact I'|]. split; [exact T1|]. split; [exact N1|]. split; [exact K1|]. split; [exact Z1|].
-    intros ->. unfold mode_ok in M. exfalso. lia.
-  - intros H; inversion H; subst; clear H. split; [exact I|]. split; [lia|]. split; [apply cnonneg_c0|].
-    split; [lia|]. split; [auto|]. auto.
+  - assert (coro = true) as -> by (unfold mode_ok in M; destruct coro; [reflexivity|exfalso; lia]).
+    destruct (suspend_drain st [] []) as [[[st1 ev1] c1] k1] eqn:D. intros H; inversion H; subst; clear H.
+    destruct (suspend_drain_spec _ _ _ _ _ _ _ I D) as (I' & S1 & T1 & N1 & K1 & Z1 & Lv).
+    split; [exact I'|]. split; [exact S1|]. split; [exact T1|]. split; [exact K1|]. split; [exact Z1|]. split; [discriminate|exact Lv].
+  - intros H; inversion H; subst; clear H. split; [exact I|]. split; [reflexivity|]. split; [lia|]. split; [lia|].
+    split; [auto|]. split; [auto|lia].
 Qed.
 
 Ltac andb_split := repeat match goal with H : _ && _ = true |- _ => apply andb_prop in H; destruct H end.
 
-(* a step that starts a coroutine (frame allocated) and possibly suspends the driver *)
+(* a step that creates a coroutine, starts it at once and possibly suspends the driver (modes 0, 1) *)
 Lemma started_ok (coro heap : bool) st x sta st' mode ev0 ev c k res extra :
-  Inv st -> same3 st sta -> mode_ok coro mode = true -> frames_of x = 1 -> 0 <= extra ->
+  Inv coro st -> same3 st sta -> mode_ok coro mode = true -> frames_of x = 1 -> plain_op x -> 0 <= extra ->
+  live sta = live st + 1 - extra ->
   after_start coro mode sta ev0 = (st', ev, c, k) ->
   step_ok coro heap st x st' (mkObs 0 res 0 (cadd (frame_new heap) (frames_freed heap (k + extra))) c0 c ev).
 Proof.
-  intros I S M F X A. pose proof (Inv_same3 _ _ S I) as Ia. destruct S as (S1 & S2 & S3).
-  destruct (after_start_spec _ _ _ _ _ _ _ _ Ia M A) as (I' & T & N & K & Z & Zn).
+  intros I S M F P X La A. pose proof (Inv_same3 _ _ _ S I) as Ia. destruct S as (S1 & S2 & S3).
+  destruct (after_start_spec _ _ _ _ _ _ _ _ Ia M A) as (I' & Sl & T & K & Z & Zn & Lv).
   unfold step_ok; cbn [o_st o_cdq o_sps o_csp]. rewrite <- S3. split; [exact I'|]. split; [exact T|]. split; [exact Z|].
-  split; [intros C; destruct (Zn C) as (Z1 & Z2 & Z3); rewrite Z2, Z3, S2; auto|].
-  right. split; [reflexivity|]. split; [auto|]. unfold frame_ok; cbn [o_cfr]. rewrite F.
-  apply frame_new_freed_ok. lia.
+  split; [auto|].
+  right. split; [reflexivity|]. destruct (frame_new_freed_ok heap (k + extra) ltac:(lia)) as (A1 & A2 & A3 & A4).
+  split; [unfold frame_ok; cbn [o_cfr]; rewrite F; auto|]. split.
+  - cbn [o_cfr]. intros Hh. rewrite A1, (A4 Hh), Hh. lia.
+  - unfold sizes. rewrite Sl, S1. apply budget_plain. exact P.
 Qed.
 
-(* a step that produces a suspend point and disposes of it *)
-Lemma disposed_ok (coro heap : bool) st x sta st' how s sp ev csp0 csp cdq k sps res evs :
-  Inv st -> same3 st sta -> sp_wf sp -> frames_of x = 0 -> cnonneg csp0 -> (sp_size sp <= 3 -> csp0 = c0) ->
-  (sp_size sp <= sps) ->
+(* a step that creates a coroutine whose start is queued (mode 2, coroutine mode) *)
+Lemma deferred_ok (heap : bool) st x it st' c res :
+  Inv true st -> frames_of x = 1 -> plain_op x -> defer_start st it = (st', c) ->
+  step_ok true heap st x st' (mkObs 0 res 1 (frame_new heap) c0 c []).
+Proof.
+  intros (I1 & I2 & I3 & I4 & I5) F P. unfold defer_start. destruct (dq_push (dq st)) as [d1 c1] eqn:D.
+  intros H; inversion H; subst; clear H. apply dq_push_spec in D. destruct D as (D1 & D2 & D5 & D3 & D4).
+  unfold step_ok; cbn [o_st o_cdq o_sps o_csp addlive setq dq slots rq live]. unfold node_len in *.
+  split; [|split; [lia|split; [|split; [discriminate|]]]].
+  - unfold Inv; cbn [slots rq dq addlive setq]. split; [exact I1|]. rewrite zlen_app. change (zlen [it]) with 1. split; [lia|]. split; [lia|]. split; [lia|discriminate].
+  - intros T. apply D4. pose proof (zlen_nonneg (rq st)). lia.
+  - right. split; [reflexivity|]. split.
+    + unfold frame_ok; cbn [o_cfr]. rewrite F. unfold frame_new, c_alloc. destruct heap; cbn; repeat split; try lia; discriminate.
+    + split; [cbn [o_cfr]; intros ->; cbn; lia|]. unfold sizes; cbn [slots]. apply budget_plain. exact P.
+Qed.
+
+Lemma clear_cost_0 : clear_cost 0 = c0. Proof. reflexivity. Qed.
+Lemma clear_cost_1 : clear_cost 1 = c0. Proof. reflexivity. Qed.
+Lemma grow_cost_01 : grow_cost 0 1 = c0. Proof. reflexivity. Qed.
+
+Lemma sp_size_nonneg s : 0 <= sp_size s. Proof. apply zlen_nonneg. Qed.
+
+(* common assembly for the three ops that hand a suspend point to `dispose` *)
+Lemma disposed_ok (coro heap : bool) st x sta st' how s sp ev csp0 csp cdq0 cdq k sps res evs :
+  Inv coro st -> Inv coro sta -> slots sta = slots st -> live sta = live st -> dq_hw (dq st) <= dq_hw (dq sta) ->
+  sp_can sp -> frames_of x = 0 ->
+  (dq_hw (dq sta) <= 63 -> cdq0 = c0) -> (coro = false -> sp_size sp <= 63 -> cdq0 = c0) ->
   dispose coro how s sta sp = (st', ev, csp, cdq, k, sps) ->
-  step_ok coro heap st x st' (mkObs 0 res sps (frames_freed heap k) (cadd csp0 csp) cdq evs).
+  ((if how =? 2
+    then sps = sp_size (gets st s) + sp_size sp /\
+         csp = cadd (grow_cost (sp_size (gets st s)) sps) (clear_cost (sp_size sp)) /\
+         sizes st' = upd (sizes st) s sps
+    else sps = sp_size sp /\ csp = clear_cost (sp_size sp) /\ sizes st' = sizes st) ->
+   sp_budget (sizes st) x sps = Some (cadd csp0 csp, sizes st')) ->
+  step_ok coro heap st x st' (mkObs 0 res sps (frames_freed heap k) (cadd csp0 csp) (cadd cdq0 cdq) evs).
 Proof.
-  intros I S W F N0 Z0 L D. pose proof (Inv_same3 _ _ S I) as Ia. destruct S as (S1 & S2 & S3).
-  destruct (dispose_spec _ _ _ _ _ _ _ _ _ _ _ Ia W D) as (I' & T & Z & Zn & N & K & Zs).
-  unfold step_ok; cbn [o_st o_cdq o_sps o_csp]. rewrite <- S3. split; [exact I'|]. split; [exact T|]. split; [exact Z|].
-  split; [intros C; destruct (Zn C) as (Z1 & Z2 & Z3); rewrite Z2, Z3, S2; auto|].
-  right. split; [reflexivity|]. split.
-  - intros L3. rewrite Zs by exact L3. rewrite Z0 by lia. reflexivity.
-  - unfold frame_ok; cbn [o_cfr]. rewrite F. destruct (frames_freed_ok heap k K) as (A & B & C). rewrite A.
-    split; [destruct heap; reflexivity|]. auto.
+  intros I Ia Sl Lv Hw C F Z0 Zn D B.
+  destruct (dispose_spec _ _ _ _ _ _ _ _ _ _ _ Ia C D) as (I' & T & Z & Zc & K & Lv' & X).
+  assert (sp_size sp <= sps) as Le.
+  { destruct (how =? 2); destruct X as (-> & _); [pose proof (sp_size_nonneg (gets sta s))|]; lia. }
+  unfold step_ok; cbn [o_st o_cdq o_sps o_csp]. split; [exact I'|]. split; [lia|]. split.
+  { intros H63. rewrite Z by exact H63. rewrite Z0 by lia. reflexivity. }
+  split.
+  { intros Fc L63. rewrite (Zc Fc), (Zn Fc) by lia. reflexivity. }
+  right. split; [reflexivity|]. destruct (frames_freed_ok heap k K) as (A1 & A2 & A3 & A4).
+  split; [unfold frame_ok; cbn [o_cfr]; rewrite F, A1; split; [destruct heap; reflexivity|auto]|].
+  split; [cbn [o_cfr]; intros Hh; rewrite A1, (A4 Hh); lia|].
+  assert (gets sta s = gets st s) as G by (unfold gets; rewrite Sl; reflexivity).
+  assert (sizes sta = sizes st) as Ss by (unfold sizes; rewrite Sl; reflexivity).
+  apply B. destruct (how =? 2); [rewrite G, Ss in X; exact X|].
+  destruct X as (X1 & X2 & X3). split; [exact X1|]. split; [exact X2|]. unfold sizes. rewrite X3, Sl. reflexivity.
 Qed.
 
-Lemma dispose_sps coro how s st sp st' ev csp cdq k sps : Inv st -> sp_wf sp ->
-  dispose coro how s st sp = (st', ev, csp, cdq, k, sps) -> sp_size sp <= sps.
-Proof.
-  intros I W. unfold dispose. destruct (how =? 2).
-  { destruct (sp_merge (gets st s) sp) as [d1 c] eqn:M. intros H; inversion H; subst; clear H.
-    destruct I as (I1 & _). destruct (sp_merge_spec _ _ _ _ (gets_wf st s I1) W M) as (_ & H1 & _).
-    unfold sp_size. rewrite H1, zlen_app. pose proof (zlen_nonneg (sp_hs (gets st s))). lia. }
-  destruct (negb coro).
-  { destruct (run_items st (sp_hs sp)). intros H; inversion H; subst. lia. }
-  destruct (how =? 0).
-  { destruct (dq_pushes (dq st) (length (sp_hs sp))). intros H; inversion H; subst. lia. }
-  destruct (sp_hs sp) eqn:E.
-  { intros H; inversion H; subst. lia. }
-  destruct (suspend_drain st [last (i :: l) i] (removelast (i :: l))) as [[[? ?] ?] ?]. intros H; inversion H; subst. lia.
-Qed.
-
-Theorem step_spec coro heap st x : Inv st ->
+Theorem step_spec coro heap st x : Inv coro st ->
   step_ok coro heap st x (fst (step coro heap st x)) (snd (step coro heap st x)).
 Proof.
   intros I. destruct x; unfold step.
   - (* FNew *)
-    destruct (inr f NF && inr ty 2 && (f_st (getf st f) =? 0)); cbn [fst snd]; [|apply rejected_ok; exact I].
-    apply simple_ok; auto with s3; try apply c0_frames; cbn; try reflexivity; lia.
+    match goal with |- context [if ?c then _ else (st, rejected)] => destruct c end; cbn [fst snd]; [|apply rejected_ok; exact I].
+    apply simple_ok; auto with s3; try apply c0_frames; cbn; try reflexivity; try lia; intros; lia.
   - (* FGetP *)
-    destruct (inr f NF && (f_st (getf st f) =? 1)); cbn [fst snd]; [|apply rejected_ok; exact I].
-    apply simple_ok; auto with s3; try apply c0_frames; cbn; try reflexivity; lia.
+    match goal with |- context [if ?c then _ else (st, rejected)] => destruct c end; cbn [fst snd]; [|apply rejected_ok; exact I].
+    apply simple_ok; auto with s3; try apply c0_frames; cbn; try reflexivity; try lia; intros; lia.
   - (* FAwaitCoro *)
     destruct (inr f NF && mode_ok coro mode && ((f_st (getf st f) =? 2) || (f_st (getf st f) =? 3))) eqn:C;
       cbn [fst snd]; [|apply rejected_ok; exact I].
-    andb_split. destruct (f_st (getf st f) =? 3).
+    andb_split. destruct (mode =? 2) eqn:M2.
+    { assert (coro = true) as -> by (unfold mode_ok in *; destruct coro; [reflexivity|exfalso; lia]).
+      destruct (defer_start st (2, w, f)) as [st1 c] eqn:D. cbn [fst snd].
+      exact (deferred_ok heap st (FAwaitCoro f w mode) _ st1 c 0 I eq_refl Logic.I D). }
+    destruct (f_st (getf st f) =? 3).
     + destruct (after_start coro mode st [(w, f_out (getf st f), f_val (getf st f))]) as [[[st1 ev] c] k] eqn:A. cbn [fst snd].
-      eapply started_ok; try exact A; auto with s3; lia.
+      eapply started_ok; try exact A; auto with s3; cbn; try tauto; lia.
     + match goal with |- context [after_start coro mode ?sa ?e] => destruct (after_start coro mode sa e) as [[[st1 ev] c] k] eqn:A end.
       cbn [fst snd]. replace k with (k + 0) by lia.
-      eapply started_ok; try exact A; auto with s3; try lia.
+      eapply started_ok; try exact A; auto with s3; cbn; try tauto; try lia.
       eapply same3_trans; [apply same3_setf|apply same3_addlive].
   - (* FAwaitSync *)
     match goal with |- context [if ?c then _ else (st, rejected)] => destruct c end; cbn [fst snd]; [|apply rejected_ok; exact I].
     destruct (f_st (getf st f) =? 3); cbn [fst snd].
-    + apply simple_ok; auto with s3; try apply c0_frames; cbn; try reflexivity; lia.
-    + apply simple_ok; try apply c0_frames; cbn; try reflexivity; try lia; auto.
+    + apply simple_ok; auto with s3; try apply c0_frames; cbn; try reflexivity; try lia; intros; lia.
+    + apply simple_ok; try apply c0_frames; cbn; try reflexivity; try lia; auto; try (intros; lia).
       eapply same3_trans; [apply same3_setf|apply same3_seth].
   - (* FAwaitCb *)
     match goal with |- context [if ?c then _ else (st, rejected)] => destruct c end; cbn [fst snd]; [|apply rejected_ok; exact I].
     destruct (f_st (getf st f) =? 3); cbn [fst snd].
-    + apply simple_ok; auto with s3; try apply c0_frames; cbn; try reflexivity; lia.
-    + apply simple_ok; try apply c0_frames; cbn; try reflexivity; try lia; auto.
+    + apply simple_ok; auto with s3; try apply c0_frames; cbn; try reflexivity; try lia; intros; lia.
+    + apply simple_ok; try apply c0_frames; cbn; try reflexivity; try lia; auto; try (intros; lia).
       eapply same3_trans; [apply same3_setf|apply same3_setc].
   - (* FResolve *)
+    cbv zeta.
     match goal with |- context [if ?c then _ else (st, rejected)] => destruct c end; cbn [fst snd]; [|apply rejected_ok; exact I].
     match goal with |- context [walk ?a ?b ?c ?d ?e ?g] => destruct (walk a b c d e g) as [[[[st2 sp] csp] cb] sy] eqn:W end.
-    match goal with |- context [dispose ?a ?b ?c ?d ?e] => destruct (dispose a b c d e) as [[[[[st3 ev] csp2] cdq] k] sps] eqn:D end.
-    cbn [fst snd].
-    destruct (walk_spec _ _ _ _ _ _ _ _ _ _ _ sp_wf_empty W) as (S & Wsp & N & Z).
-    match type of S with same3 ?sa _ => assert (same3 st st2) as S2 by (eapply same3_trans; [apply (same3_setf st)|exact S]) end.
-    eapply (disposed_ok coro heap st (FResolve f kind how s v) st2 st3 how s sp ev csp csp2 cdq k sps _ _ I S2 Wsp eq_refl N Z); [|exact D].
-    eapply dispose_sps; [|exact Wsp|exact D]. eapply Inv_same3; [exact S2|exact I].
+    destruct (walk_add_all _ _ _ _ _ _ _ _ _ _ _ W) as (Aw & Sw & Lw).
+    destruct (add_all_can _ _ _ _ sp_can_empty Aw) as (Csp & Szsp & Ecsp).
+    change (sp_size sp_empty) with 0 in Szsp, Ecsp.
+    assert (same3 st st2) as S2 by (eapply same3_trans; [apply (same3_setf st)|exact Sw]).
+    pose proof (Inv_same3 _ _ _ S2 I) as I2. cbn [setf live] in Lw.
+    pose proof (sp_size_nonneg sp) as Nsp.
+    destruct (how =? how mod 10) eqn:Hcsp.
+    + (* plain resolution *)
+      match goal with |- context [dispose ?a ?b ?c ?d ?e] => destruct (dispose a b c d e) as [[[[[st3 ev] csp2] cdq] k] sps] eqn:D end.
+      cbn [fst snd]. rewrite (cadd_c0_l csp2).
+      eapply (disposed_ok coro heap st (FResolve f kind how s v) st2 st3 (how mod 10) s sp ev csp csp2 c0 cdq k sps _ _ I I2);
+        try exact D; try (destruct S2 as (? & ? & Q3); first [assumption|rewrite Q3; lia]); auto.
+      intros X. cbn [sp_budget]. rewrite Hcsp.
+      destruct (how mod 10 =? 2) eqn:H2.
+      * destruct X as (X1 & X2 & X3). rewrite sizes_nth.
+        replace (sps - sp_size (gets st s)) with (sp_size sp) by lia.
+        replace (0 <=? sp_size sp) with true by lia. rewrite X3, X2, Ecsp. first [reflexivity|do 2 f_equal; cost_eq].
+      * destruct X as (X1 & X2 & X3). replace (sps - 0) with (sp_size sp) by lia.
+        replace (0 <=? sp_size sp) with true by lia. rewrite X3, X2, Ecsp. first [reflexivity|do 2 f_equal; cost_eq].
+    + (* inside create_suspend_point *)
+      destruct (csp_wrap st2 sp) as [[[st2' ss] csp1] cdq1] eqn:Wr.
+      destruct (csp_wrap_spec _ _ _ _ _ _ _ I2 Csp Wr) as (I2' & Sl' & Lv' & Hw' & Css & Szss & E1 & Z1 & Zn1).
+      match goal with |- context [dispose ?a ?b ?c ?d ?e] => destruct (dispose a b c d e) as [[[[[st3 ev] csp2] cdq] k] sps] eqn:D end.
+      cbn [fst snd].
+      replace (cadd csp (cadd csp1 csp2)) with (cadd (cadd csp csp1) csp2) by cost_eq.
+      destruct S2 as (Q1 & Q2 & Q3).
+      eapply (disposed_ok coro heap st (FResolve f kind how s v) st2' st3 (how mod 10) s ss ev (cadd csp csp1) csp2 cdq1 cdq k sps _ _ I I2');
+        try exact D; auto; try congruence; try (rewrite <- Q3; exact Hw'); try (rewrite Szss; exact Zn1).
+      intros X. cbn [sp_budget]. rewrite Hcsp. rewrite Szss in X.
+      destruct (how mod 10 =? 2) eqn:H2.
+      * destruct X as (X1 & X2 & X3). rewrite sizes_nth.
+        replace (sps - sp_size (gets st s)) with (sp_size sp) by lia.
+        replace (0 <=? sp_size sp) with true by lia. rewrite X3, X2, E1, Ecsp. first [reflexivity|do 2 f_equal; cost_eq].
+      * destruct X as (X1 & X2 & X3). replace (sps - 0) with (sp_size sp) by lia.
+        replace (0 <=? sp_size sp) with true by lia. rewrite X3, X2, E1, Ecsp. first [reflexivity|do 2 f_equal; cost_eq].
   - (* FDestroy *)
     match goal with |- context [if ?c then _ else (st, rejected)] => destruct c end; cbn [fst snd]; [|apply rejected_ok; exact I].
-    apply simple_ok; auto with s3; try apply c0_frames; cbn; try reflexivity; lia.
+    apply simple_ok; auto with s3; try apply c0_frames; cbn; try reflexivity; try lia; intros; lia.
   - (* MTry *)
     destruct (inr m NM); cbn [fst snd]; [|apply rejected_ok; exact I].
-    destruct (m_st (getm st m) =? 0); cbn [fst snd]; apply simple_ok; auto with s3; try apply c0_frames; cbn; try reflexivity; lia.
+    destruct (m_st (getm st m) =? 0); cbn [fst snd]; apply simple_ok; auto with s3; try apply c0_frames; cbn; try reflexivity; try lia; intros; lia.
   - (* MLockCoro *)
     destruct (inr m NM && mode_ok coro mode) eqn:C; cbn [fst snd]; [|apply rejected_ok; exact I].
-    andb_split. destruct (m_st (getm st m) =? 0).
+    andb_split. destruct (mode =? 2) eqn:M2.
+    { assert (coro = true) as -> by (unfold mode_ok in *; destruct coro; [reflexivity|exfalso; lia]).
+      destruct (defer_start st (3, w, m)) as [st1 c] eqn:D. cbn [fst snd].
+      exact (deferred_ok heap st (MLockCoro m w mode) _ st1 c 0 I eq_refl Logic.I D). }
+    destruct (m_st (getm st m) =? 0).
     + match goal with |- context [after_start coro mode ?sa ?e] => destruct (after_start coro mode sa e) as [[[st1 ev] c] k] eqn:A end.
-      cbn [fst snd]. eapply started_ok; try exact A; auto with s3; lia.
+      cbn [fst snd]. eapply started_ok; try exact A; auto with s3; cbn; try tauto; lia.
     + match goal with |- context [after_start coro mode ?sa ?e] => destruct (after_start coro mode sa e) as [[[st1 ev] c] k] eqn:A end.
       cbn [fst snd]. replace k with (k + 0) by lia.
-      eapply started_ok; try exact A; auto with s3; try lia.
+      eapply started_ok; try exact A; auto with s3; cbn; try tauto; try lia.
       eapply same3_trans; [apply same3_setm|apply same3_addlive].
   - (* MLockSync *)
     match goal with |- context [if ?c then _ else (st, rejected)] => destruct c end; cbn [fst snd]; [|apply rejected_ok; exact I].
     destruct (m_st (getm st m) =? 0); cbn [fst snd].
-    + apply simple_ok; auto with s3; try apply c0_frames; cbn; try reflexivity; lia.
-    + apply simple_ok; try apply c0_frames; cbn; try reflexivity; try lia; auto.
+    + apply simple_ok; auto with s3; try apply c0_frames; cbn; try reflexivity; try lia; intros; lia.
+    + apply simple_ok; try apply c0_frames; cbn; try reflexivity; try lia; auto; try (intros; lia).
       eapply same3_trans; [apply same3_setm|apply same3_seth].
   - (* MLockCb *)
     match goal with |- context [if ?c then _ else (st, rejected)] => destruct c end; cbn [fst snd]; [|apply rejected_ok; exact I].
     destruct (m_st (getm st m) =? 0); cbn [fst snd].
-    + apply simple_ok; auto with s3; try apply c0_frames; cbn; try reflexivity; lia.
-    + apply simple_ok; try apply c0_frames; cbn; try reflexivity; try lia; auto.
+    + apply simple_ok; auto with s3; try apply c0_frames; cbn; try reflexivity; try lia; intros; lia.
+    + apply simple_ok; try apply c0_frames; cbn; try reflexivity; try lia; auto; try (intros; lia).
       eapply same3_trans; [apply same3_setm|apply same3_setc].
   - (* MUnlock *)
     match goal with |- context [if ?c then _ else (st, rejected)] => destruct c end; cbn [fst snd]; [|apply rejected_ok; exact I].
+    assert (forall sta sp st3 ev csp0 csp2 cdq k sps evs, same3 st sta -> live sta = live st -> sp_can sp ->
+              (sp_size sp = 0 \/ sp_size sp = 1) -> csp0 = c0 ->
+              dispose coro how s sta sp = (st3, ev, csp2, cdq, k, sps) ->
+              step_ok coro heap st (MUnlock m how s) st3 (mkObs 0 0 sps (frames_freed heap k) (cadd csp0 csp2) cdq evs)) as Gen.
+    { intros sta sp st3 ev csp0 csp2 cdq k sps evs S Lv C Sz E0 D.
+      pose proof (Inv_same3 _ _ _ S I) as Ia. destruct S as (Q1 & Q2 & Q3).
+      rewrite <- (cadd_c0_l cdq).
+      eapply (disposed_ok coro heap st (MUnlock m how s) sta st3 how s sp ev csp0 csp2 c0 cdq k sps _ _ I Ia);
+        try exact D; auto; try (rewrite Q3; lia).
+      intros X. cbn [sp_budget]. subst csp0. destruct (how =? 2) eqn:H2.
+      - destruct X as (X1 & X2 & X3). rewrite sizes_nth.
+        replace ((0 <=? sps - sp_size (gets st s)) && (sps - sp_size (gets st s) <=? 1)) with true by lia.
+        rewrite X3, X2.
+        destruct Sz as [Sz|Sz]; rewrite Sz; [rewrite clear_cost_0|rewrite clear_cost_1]; first [reflexivity|do 2 f_equal; cost_eq].
+      - destruct X as (X1 & X2 & X3). replace ((0 <=? sps) && (sps <=? 1)) with true by lia.
+        rewrite X3, X2.
+        destruct Sz as [Sz|Sz]; rewrite Sz; [rewrite clear_cost_0|rewrite clear_cost_1]; first [reflexivity|do 2 f_equal; cost_eq]. }
     destruct (m_q (getm st m)) as [|w q].
     + match goal with |- context [dispose ?a ?b ?c ?d ?e] => destruct (dispose a b c d e) as [[[[[st3 ev] csp2] cdq] k] sps] eqn:D end.
       cbn [fst snd]. rewrite <- (cadd_c0_l csp2).
-      assert (same3 st (setm st m (mkMtx 0 []))) as S by auto with s3.
-      eapply (disposed_ok coro heap st (MUnlock m how s) _ st3 how s sp_empty ev c0 csp2 cdq k sps _ _ I S sp_wf_empty eq_refl cnonneg_c0 (fun _ => eq_refl)); [|exact D].
-      eapply dispose_sps; [|apply sp_wf_empty|exact D]. eapply Inv_same3; [exact S|exact I].
+      eapply Gen; try exact D; auto with s3. apply sp_can_empty.
     + destruct w as [k0 i]. destruct (k0 =? 0).
       * destruct (sp_add sp_empty (1, i, m)) as [sp csp] eqn:A.
         match goal with |- context [dispose ?a ?b ?c ?d ?e] => destruct (dispose a b c d e) as [[[[[st3 ev] csp2] cdq] k] sps] eqn:D end.
         cbn [fst snd].
-        destruct (sp_add_spec _ _ _ _ sp_wf_empty A) as (W1 & H1 & N1 & Z1 & _).
-        assert (same3 st (setm (release_waiter st (k0, i)) m (mkMtx 2 q))) as S
-          by (eapply same3_trans; [apply same3_release|apply same3_setm]).
-        eapply (disposed_ok coro heap st (MUnlock m how s) _ st3 how s sp ev csp csp2 cdq k sps _ _ I S W1 eq_refl N1 Z1); [|exact D].
-        eapply dispose_sps; [|exact W1|exact D]. eapply Inv_same3; [exact S|exact I].
+        destruct (add_can _ _ _ _ sp_can_empty A) as (C1 & Sz1 & E1). change (sp_size sp_empty) with 0 in Sz1, E1.
+        eapply Gen; try exact D; auto.
+        -- eapply same3_trans; [apply same3_release|apply same3_setm].
+        -- cbn [setm live]. apply live_release.
+        -- rewrite E1. replace (sp_size sp) with 1 by lia. apply grow_cost_01.
       * match goal with |- context [dispose ?a ?b ?c ?d ?e] => destruct (dispose a b c d e) as [[[[[st3 ev] csp2] cdq] k] sps] eqn:D end.
         cbn [fst snd]. rewrite <- (cadd_c0_l csp2).
-        assert (same3 st (setm (release_waiter st (k0, i)) m (mkMtx 1 q))) as S
-          by (eapply same3_trans; [apply same3_release|apply same3_setm]).
-        eapply (disposed_ok coro heap st (MUnlock m how s) _ st3 how s sp_empty ev c0 csp2 cdq k sps _ _ I S sp_wf_empty eq_refl cnonneg_c0 (fun _ => eq_refl)); [|exact D].
-        eapply dispose_sps; [|apply sp_wf_empty|exact D]. eapply Inv_same3; [exact S|exact I].
+        eapply Gen; try exact D; auto.
+        -- eapply same3_trans; [apply same3_release|apply same3_setm].
+        -- cbn [setm live]. apply live_release.
+        -- apply sp_can_empty.
   - (* GNew *)
     match goal with |- context [if ?c then _ else (st, rejected)] => destruct c end; cbn [fst snd]; [|apply rejected_ok; exact I].
-    apply simple_ok; auto.
+    apply simple_ok; auto; try (cbn; tauto).
     + eapply same3_trans; [apply same3_setg|apply same3_addlive].
     + unfold frame_new. destruct heap; reflexivity.
     + unfold frame_new. destruct heap; cbn; lia.
     + intros ->. reflexivity.
+    + intros ->. cbn. lia.
   - (* GNext *)
     match goal with |- context [if ?c then _ else (st, rejected)] => destruct c end; cbn [fst snd]; [|apply rejected_ok; exact I].
-    destruct (nth (n g) (gens st) None) as [[cur k]|]; cbn [fst snd]; [|apply rejected_ok; exact I].
+    destruct (nth (n g) (gens st) None) as [[[cur k] a]|]; cbn [fst snd]; [|apply rejected_ok; exact I].
     destruct (cur <? k); [|destruct (cur =? k); [|destruct (how =? 1)]]; cbn [fst snd];
-      try (apply rejected_ok; exact I); apply simple_ok; auto with s3; try apply c0_frames; cbn; try reflexivity; lia.
+      try (apply rejected_ok; exact I); apply simple_ok; auto with s3; try apply c0_frames; cbn; try reflexivity; try lia; intros; lia.
   - (* GDestroy *)
     destruct (inr g NG); cbn [fst snd]; [|apply rejected_ok; exact I].
     destruct (nth (n g) (gens st) None); cbn [fst snd]; [|apply rejected_ok; exact I].
-    destruct (frames_freed_ok heap 1 ltac:(lia)) as (A & B & C).
-    apply simple_ok; auto.
+    destruct (frames_freed_ok heap 1 ltac:(lia)) as (A & B & C & D).
+    apply simple_ok; auto; try (cbn; tauto).
     + eapply same3_trans; [apply same3_setg|apply same3_addlive].
     + rewrite A. destruct heap; reflexivity.
+    + intros Hh. rewrite A, (D Hh). cbn. lia.
   - (* SpFlush *)
-    match goal with |- context [if ?c then _ else (st, rejected)] => destruct c end; cbn [fst snd]; [|apply rejected_ok; exact I].
+    match goal with |- context [if ?c then _ else (st, rejected)] => destruct c eqn:Cnd end; cbn [fst snd]; [|apply rejected_ok; exact I].
     match goal with |- context [dispose ?a ?b ?c ?d ?e] => destruct (dispose a b c d e) as [[[[[st3 ev] csp2] cdq] k] sps] eqn:D end.
-    cbn [fst snd]. rewrite <- (cadd_c0_l csp2).
-    assert (Inv (sets st s sp_empty)) as Ia.
-    { destruct I as (I1 & I2 & I3). unfold Inv; cbn [sets slots rq dq]. split; [|auto]. apply Forall_set_nth; [exact I1|apply sp_wf_empty]. }
-    assert (sp_wf (gets st s)) as Wg by (apply gets_wf; apply I).
-    destruct (dispose_spec _ _ _ _ _ _ _ _ _ _ _ Ia Wg D) as (I' & T & Z & Zn & N & K & Zs).
-    unfold step_ok; cbn [o_st o_cdq o_sps o_csp]. cbn [sets dq rq] in T, Zn.
-    split; [exact I'|]. split; [exact T|]. split; [exact Z|]. split; [exact Zn|].
-    right. split; [reflexivity|]. split.
-    + intros L3. rewrite Zs by exact L3. reflexivity.
-    + unfold frame_ok; cbn [o_cfr]. destruct (frames_freed_ok heap k K) as (A & B & C). rewrite A.
-      split; [destruct heap; reflexivity|]. auto.
+    cbn [fst snd].
+    assert (Inv coro (sets st s sp_empty)) as Ia.
+    { destruct I as (I1 & I2). unfold Inv; cbn [sets slots rq dq]. split; [|exact I2]. apply Forall_set_nth; [exact I1|apply sp_can_empty]. }
+    assert (sp_can (gets st s)) as Cg by (apply gets_can; apply I).
+    assert (how =? 2 = false) as H2 by (andb_split; lia).
+    destruct (dispose_spec _ _ _ _ _ _ _ _ _ _ _ Ia Cg D) as (I' & T & Z & Zc & K & Lv' & X).
+    rewrite H2 in X. destruct X as (X1 & X2 & X3).
+    unfold step_ok; cbn [o_st o_cdq o_sps o_csp]. cbn [sets dq live] in T, Lv'.
+    split; [exact I'|]. split; [exact T|]. split; [exact Z|]. split; [auto|].
+    right. split; [reflexivity|]. destruct (frames_freed_ok heap k K) as (A1 & A2 & A3 & A4).
+    split; [unfold frame_ok; cbn [o_cfr]; rewrite A1; split; [destruct heap; reflexivity|auto]|].
+    split; [cbn [o_cfr]; intros Hh; rewrite A1, (A4 Hh); lia|].
+    cbn [sp_budget]. rewrite X1, X2. unfold sizes at 2. rewrite X3. cbn [sets slots]. unfold upd. rewrite map_set_nth. reflexivity.
   - (* Pause *)
     destruct coro; cbn [fst snd]; [|apply rejected_ok; exact I].
     destruct (suspend_drain st [] []) as [[[st1 ev] c] k] eqn:D. cbn [fst snd].
-    destruct (suspend_drain_spec _ _ _ _ _ _ _ I D) as (I' & S1 & T1 & N1 & K1 & Z1).
+    destruct (suspend_drain_spec _ _ _ _ _ _ _ I D) as (I' & S1 & T1 & N1 & K1 & Z1 & Lv).
     unfold step_ok; cbn [o_st o_cdq o_sps o_csp]. split; [exact I'|]. split; [exact T1|]. split; [exact Z1|]. split; [discriminate|].
-    right. split; [reflexivity|]. split; [auto|].
-    unfold frame_ok; cbn [o_cfr]. destruct (frames_freed_ok heap k K1) as (A & B & C). rewrite A.
-    split; [destruct heap; reflexivity|]. auto.
+    right. split; [reflexivity|]. destruct (frames_freed_ok heap k K1) as (A1 & A2 & A3 & A4).
+    split; [unfold frame_ok; cbn [o_cfr]; rewrite A1; split; [destruct heap; reflexivity|auto]|].
+    split; [cbn [o_cfr]; intros Hh; rewrite A1, (A4 Hh); lia|].
+    unfold sizes. rewrite S1. reflexivity.
+  - (* PMove *)
+    match goal with |- context [if ?c then _ else (st, rejected)] => destruct c end; cbn [fst snd]; [|apply rejected_ok; exact I].
+    apply simple_ok; auto with s3; try apply c0_frames; cbn; try reflexivity; try lia; intros; lia.
   - (* OBad *) cbn [fst snd]. apply rejected_ok; exact I.
 Qed.
 
 (* ---------- runs ---------- *)
 Arguments step : simpl never.
 
-Lemma run_facts coro heap l : forall st, Inv st ->
-  Inv (snd (run_from coro heap st l)) /\
-  dq_tail (dq st) <= dq_tail (dq (snd (run_from coro heap st l))) /\
-  Forall2 (fun x o => exists sa sb, step_ok coro heap sa x sb o /\
-                      dq_tail (dq sb) <= dq_tail (dq (snd (run_from coro heap st l))))
+Lemma run_facts coro heap l : forall st, Inv coro st ->
+  Inv coro (snd (run_from coro heap st l)) /\
+  dq_hw (dq st) <= dq_hw (dq (snd (run_from coro heap st l))) /\
+  Forall2 (fun x o => exists sa sb, Inv coro sa /\ step_ok coro heap sa x sb o /\
+                      dq_hw (dq sb) <= dq_hw (dq (snd (run_from coro heap st l))))
           l (fst (run_from coro heap st l)).
 Proof.
   induction l as [|x l IH]; intros st I; cbn [run_from].
   - cbn [fst snd]. split; [exact I|]. split; [lia|constructor].
   - pose proof (step_spec coro heap st x I) as S.
     destruct (step coro heap st x) as [st1 o] eqn:E. cbn [fst snd] in S.
-    assert (Inv st1) as I1 by apply S.
+    assert (Inv coro st1) as I1 by apply S.
     destruct (IH st1 I1) as (J1 & J2 & J3).
     destruct (run_from coro heap st1 l) as [os st2] eqn:R. cbn [fst snd] in *.
     split; [exact J1|]. split; [destruct S as (_ & T & _); lia|].
-    constructor; [|exact J3]. exists st, st1. split; [exact S|exact J2].
+    constructor; [|exact J3]. exists st, st1. split; [exact I|]. split; [exact S|exact J2].
 Qed.
 
 Lemma Forall2_impl' {A B} (P Q : A -> B -> Prop) l l' : (forall a b, P a b -> Q a b) -> Forall2 P l l' -> Forall2 Q l l'.
 Proof. intros H F. induction F; constructor; auto. Qed.
 
+Lemma clear_le3 k : k <= 3 -> clear_cost k = c0.
+Proof.
+  intros K. destruct (Z_lt_le_dec k 0) as [N|N]; [|apply clear_small; assumption].
+  unfold clear_cost, mk_sp, n. destruct k; try lia. reflexivity.
+Qed.
+
+(* with at most three handles in the suspend point of the step, the budget is zero *)
+Lemma budget_small st x sps c sl' : sp_budget (sizes st) x sps = Some (c, sl') -> sps <= 3 -> c = c0.
+Proof.
+  destruct x; cbn [sp_budget]; try (intros H _; inversion H; reflexivity).
+  - (* FResolve *)
+    intros H L. set (old := if how mod 10 =? 2 then nth (n s) (sizes st) 0 else 0) in *.
+    assert (0 <= old) as O by (subst old; destruct (how mod 10 =? 2); [rewrite sizes_nth; apply sp_size_nonneg|lia]).
+    destruct (0 <=? sps - old) eqn:K; [|discriminate].
+    assert (grow_cost 0 (sps - old) = c0) as G1 by (apply grow_small; lia).
+    assert (clear_cost (sps - old) = c0) as G2 by (apply clear_le3; lia).
+    assert (grow_cost old sps = c0) as G3 by (apply grow_small; lia).
+    rewrite G1, G2, G3 in H. destruct (how =? how mod 10); destruct (how mod 10 =? 2); inversion H; reflexivity.
+  - (* MUnlock *)
+    intros H L. destruct (how =? 2).
+    + destruct ((0 <=? sps - nth (n s) (sizes st) 0) && (sps - nth (n s) (sizes st) 0 <=? 1)) eqn:K; [|discriminate].
+      inversion H. apply grow_small; [rewrite sizes_nth; apply sp_size_nonneg|lia|lia].
+    + destruct ((0 <=? sps) && (sps <=? 1)); inversion H; reflexivity.
+  - (* SpFlush *)
+    intros H L. inversion H. apply clear_le3. exact L.
+Qed.
+
 (* what the property demands of one accepted step *)
 Definition step_clean (heap : bool) (x : op) (o : obs) : Prop :=
-  o = rejected \/
-  (o_st o = 0 /\ o_cdq o = c0 /\ (o_sps o <= 3 -> o_csp o = c0) /\ frame_ok heap x o).
+  o = rejected \/ (o_st o = 0 /\ (o_sps o <= 3 -> o_other o = c0) /\ frame_ok heap x o).
 
 (* normal mode: every program *)
 Theorem zero_alloc_normal heap ops :
   Forall2 (step_clean heap) ops (fst (run_from false heap st0 ops)).
 Proof.
-  destruct (run_facts false heap ops st0 Inv_st0) as (_ & _ & F).
-  eapply Forall2_impl'; [|exact F]. intros x o (sa & sb & S & _).
-  destruct S as (_ & _ & _ & Zn & [R|(A & B & C)]); [left; exact R|].
-  right. split; [exact A|]. split; [apply Zn; reflexivity|]. split; assumption.
+  destruct (run_facts false heap ops st0 (Inv_st0 false)) as (_ & _ & F).
+  eapply Forall2_impl'; [|exact F]. intros x o (sa & sb & Ia & S & _).
+  destruct S as (_ & _ & _ & Zn & [(R & _)|(A & B & _ & Bud)]); [left; exact R|].
+  right. split; [exact A|]. split; [|exact B].
+  intros L. unfold o_other. rewrite (budget_small _ _ _ _ _ Bud L), (Zn eq_refl) by lia. reflexivity.
 Qed.
 
-(* coroutine mode: every program whose ready-queue cursor stays inside the first node (fewer than 64 enqueues) *)
+(* coroutine mode: every program whose ready-queue cursor stays inside the first node (it never reaches position 64) *)
 Theorem zero_alloc_below_node_boundary heap ops :
-  dq_tail (dq (snd (run_from true heap st0 ops))) <= 63 ->
+  dq_hw (dq (snd (run_from true heap st0 ops))) <= 63 ->
   Forall2 (step_clean heap) ops (fst (run_from true heap st0 ops)).
 Proof.
-  intros T. destruct (run_facts true heap ops st0 Inv_st0) as (_ & _ & F).
-  eapply Forall2_impl'; [|exact F]. intros x o (sa & sb & S & Tb).
-  destruct S as (_ & _ & Z & _ & [R|(A & B & C)]); [left; exact R|].
-  right. split; [exact A|]. split; [apply Z; lia|]. split; assumption.
+  intros T. destruct (run_facts true heap ops st0 (Inv_st0 true)) as (_ & _ & F).
+  eapply Forall2_impl'; [|exact F]. intros x o (sa & sb & Ia & S & Tb).
+  destruct S as (_ & _ & Z & _ & [(R & _)|(A & B & _ & Bud)]); [left; exact R|].
+  right. split; [exact A|]. split; [|exact B].
+  intros L. unfold o_other. rewrite (budget_small _ _ _ _ _ Bud L), Z by lia. reflexivity.
 Qed.
 
-(* the cursor: one step's deque traffic is zero whenever its enqueues stay inside the current node of the first
-   64 positions; in general the cursor only moves forward *)
-Theorem enqueue_counter_monotone coro heap st x : Inv st ->
-  dq_tail (dq st) <= dq_tail (dq (fst (step coro heap st x))).
-Proof. intros I. apply (step_spec coro heap st x I). Qed.
+(* ---------- the strict oracle accepts exactly these traces ---------- *)
+Lemma ceq_refl c : ceq (mkCost (c_a c) (c_ab c) (c_f c) (c_fb c)) c = true.
+Proof. unfold ceq; cbn [c_a c_ab c_f c_fb]. rewrite !Z.eqb_refl. reflexivity. Qed.
 
-(* ---------- the oracle accepts exactly these traces ---------- *)
-Lemma line_ok_clean heap x o : step_clean heap x o -> line_ok heap x (encode_obs o) = true.
+Lemma line_ok_step coro heap st x st' o : step_ok coro heap st x st' o -> o_cdq o = c0 ->
+  line_ok heap (sizes st) x (encode_obs o) = Some (sizes st').
 Proof.
-  intros [->|(A & B & C & (D1 & D2 & D3))]; [reflexivity|].
-  unfold encode_obs, line_ok. rewrite A. rewrite D1, Z.eqb_refl. cbn [andb].
+  intros (_ & _ & _ & _ & [(-> & ->)|(A & (D1 & D2 & D3) & _ & Bud)]) Z; [reflexivity|].
+  unfold encode_obs, line_ok. rewrite A, Bud. rewrite D1, Z.eqb_refl. cbn [andb].
   replace (0 <=? c_f (o_cfr o)) with true by lia. cbn [andb].
   assert ((heap || (c_f (o_cfr o) =? 0)) = true) as -> by (destruct heap; [reflexivity|rewrite D3 by reflexivity; reflexivity]).
-  cbn [andb]. unfold inline_count. destruct (3 <? o_sps o) eqn:E; [reflexivity|].
-  unfold o_other. rewrite B, C by lia. reflexivity.
+  cbn [andb]. unfold o_other. rewrite Z, cadd_c0_r, ceq_refl. reflexivity.
 Qed.
 
-Lemma lines_ok_clean heap ops tr : Forall2 (step_clean heap) ops tr -> lines_ok heap ops (map encode_obs tr) = true.
+Lemma lines_ok_run coro heap (P : state -> obs -> Prop) l : forall st, Inv coro st ->
+  (forall sa x sb o, step_ok coro heap sa x sb o -> P sb o -> o_cdq o = c0) ->
+  Forall2 (fun x o => exists sa sb, Inv coro sa /\ step_ok coro heap sa x sb o /\ P sb o) l (fst (run_from coro heap st l)) ->
+  lines_ok heap (sizes st) l (map encode_obs (fst (run_from coro heap st l))) = true.
 Proof.
-  induction 1 as [|x o ops tr H F IH]; cbn [lines_ok map]; [reflexivity|].
-  rewrite (line_ok_clean _ _ _ H), IH. reflexivity.
+  induction l as [|x l IH]; intros st I HP F; cbn [run_from] in *; [reflexivity|].
+  pose proof (step_spec coro heap st x I) as S.
+  destruct (step coro heap st x) as [st1 o] eqn:E. cbn [fst snd] in S.
+  destruct (run_from coro heap st1 l) as [os st2] eqn:R. cbn [fst snd map lines_ok] in *.
+  inversion F as [|? ? ? ? (sa & sb & _ & Sab & Pab) F']; subst.
+  assert (o_cdq o = c0) as Z.
+  { destruct S as (_ & _ & _ & _ & [(-> & _)|_]); [reflexivity|].
+    (* the witness states of F are not syntactically st/st1: use the obs-only part of P through HP on the real step *)
+    eapply HP; [exact Sab|exact Pab]. }
+  rewrite (line_ok_step _ _ _ _ _ _ S Z).
+  assert (Inv coro st1) as I1 by apply S.
+  specialize (IH st1 I1 HP). rewrite R in IH. cbn [fst] in IH. apply IH. exact F'.
 Qed.
 
-Theorem oracle_normal heap ops : al_oracle heap ops (al_run false heap ops) = true.
-Proof. unfold al_oracle, al_run. apply lines_ok_clean. apply zero_alloc_normal. Qed.
+Lemma Forall2_and_right {A B} (R : A -> B -> Prop) (Q : B -> Prop) l tr :
+  Forall2 R l tr -> Forall Q tr -> Forall2 (fun x o => R x o /\ Q o) l tr.
+Proof. intros F. induction F; intros HQ; inversion HQ; subst; constructor; auto. Qed.
+
+Lemma sizes_st0 : sizes st0 = repeat 0 (n NS). Proof. reflexivity. Qed.
+
+(* normal mode: every program whose create_suspend_point calls stay below 64 handles *)
+Theorem oracle_normal heap ops :
+  Forall (fun o => o_sps o <= 63) (fst (run_from false heap st0 (map decode ops))) ->
+  al_oracle heap ops (al_run false heap ops) = true.
+Proof.
+  intros H. unfold al_oracle, al_run. rewrite <- sizes_st0.
+  apply (lines_ok_run false heap (fun _ o => o_sps o <= 63)); [apply Inv_st0| |].
+  - intros sa x sb o S L. destruct S as (_ & _ & _ & Zn & _). apply Zn; [reflexivity|exact L].
+  - destruct (run_facts false heap (map decode ops) st0 (Inv_st0 false)) as (_ & _ & F).
+    pose proof (Forall2_and_right _ _ _ _ F H) as F2.
+    eapply Forall2_impl'; [|exact F2]. intros x o ((sa & sb & Ia & S & _) & L). exists sa, sb. auto.
+Qed.
 
 Theorem oracle_below_node_boundary heap ops :
-  dq_tail (dq (snd (run_from true heap st0 (map decode ops)))) <= 63 ->
+  dq_hw (dq (snd (run_from true heap st0 (map decode ops)))) <= 63 ->
   al_oracle heap ops (al_run true heap ops) = true.
-Proof. intros T. unfold al_oracle, al_run. apply lines_ok_clean. apply zero_alloc_below_node_boundary. exact T. Qed.
+Proof.
+  intros T. unfold al_oracle, al_run. rewrite <- sizes_st0.
+  apply (lines_ok_run true heap (fun sb _ => dq_hw (dq sb) <= 63)); [apply Inv_st0| |].
+  - intros sa x sb o S L. destruct S as (_ & _ & Z & _). apply Z. exact L.
+  - destruct (run_facts true heap (map decode ops) st0 (Inv_st0 true)) as (_ & _ & F).
+    eapply Forall2_impl'; [|exact F]. intros x o (sa & sb & Ia & S & L). exists sa, sb. split; [exact Ia|]. split; [exact S|lia].
+Qed.
 
-(* ---------- allocations = frames ---------- *)
+(* the suspend point cost of every accepted step of every program in every mode is the budget computed from handle
+   counts alone: arrays of 6, 12, 24 ... handles from the fourth handle on, nothing else *)
+Theorem sp_cost_is_budget coro heap st x : Inv coro st ->
+  let r := step coro heap st x in
+  o_st (snd r) = 0 -> sp_budget (sizes st) x (o_sps (snd r)) = Some (o_csp (snd r), sizes (fst r)).
+Proof.
+  intros I r A. subst r. destruct (step_spec coro heap st x I) as (_ & _ & _ & _ & [(R & _)|(_ & _ & _ & B)]).
+  - rewrite R in A. discriminate.
+  - exact B.
+Qed.
+
+(* ---------- allocations = frames; live-frame balance ---------- *)
 Fixpoint total_fa (tr : list obs) : Z := match tr with [] => 0 | o :: t => c_a (o_cfr o) + total_fa t end.
+Fixpoint total_ff (tr : list obs) : Z := match tr with [] => 0 | o :: t => c_f (o_cfr o) + total_ff t end.
 Fixpoint total_other (tr : list obs) : Z := match tr with [] => 0 | o :: t => c_a (o_other o) + total_other t end.
 Fixpoint frames_created (ops : list op) (tr : list obs) : Z :=
   match ops, tr with
@@ -676,11 +1050,43 @@ Theorem alloc_equals_frames coro heap ops :
   total_fa (fst (run_from coro heap st0 ops)) =
   if heap then frames_created ops (fst (run_from coro heap st0 ops)) else 0.
 Proof.
-  destruct (run_facts coro heap ops st0 Inv_st0) as (_ & _ & F).
-  induction F as [|x o l tr (sa & sb & S & _) F IH]; cbn [total_fa frames_created]; [destruct heap; reflexivity|].
-  rewrite IH. destruct S as (_ & _ & _ & _ & [->|(A & _ & (D1 & _))]).
+  destruct (run_facts coro heap ops st0 (Inv_st0 coro)) as (_ & _ & F).
+  induction F as [|x o l tr (sa & sb & _ & S & _) F IH]; cbn [total_fa frames_created]; [destruct heap; reflexivity|].
+  rewrite IH. destruct S as (_ & _ & _ & _ & [(-> & _)|(A & (D1 & _) & _)]).
   - cbn. destruct heap; reflexivity.
   - rewrite A, D1. cbn. destruct heap; lia.
+Qed.
+
+(* frames allocated - frames freed = coroutines still alive (suspended, queued, not yet started) + live generators:
+   `live` is raised exactly where a created coroutine is left unfinished or a generator is created, and lowered exactly
+   where a coroutine runs to its end or a generator is destroyed *)
+Lemma live_balance_from coro l : forall st, Inv coro st ->
+  total_fa (fst (run_from coro true st l)) - total_ff (fst (run_from coro true st l)) =
+  live (snd (run_from coro true st l)) - live st.
+Proof.
+  induction l as [|x l IH]; intros st I; cbn [run_from]; [cbn; lia|].
+  pose proof (step_spec coro true st x I) as S.
+  destruct (step coro true st x) as [st1 o] eqn:E. cbn [fst snd] in S.
+  assert (Inv coro st1) as I1 by apply S. specialize (IH st1 I1).
+  destruct (run_from coro true st1 l) as [os st2] eqn:R. cbn [fst snd total_fa total_ff] in *.
+  destruct S as (_ & _ & _ & _ & [(-> & ->)|(_ & _ & L & _)]).
+  - cbn. lia.
+  - specialize (L eq_refl). lia.
+Qed.
+
+Theorem live_balance coro ops :
+  total_fa (fst (run_from coro true st0 ops)) - total_ff (fst (run_from coro true st0 ops)) =
+  live (snd (run_from coro true st0 ops)).
+Proof. rewrite (live_balance_from coro ops st0 (Inv_st0 coro)). cbn. lia. Qed.
+
+(* under a non-heap storage no frame is ever allocated or freed *)
+Theorem pooled_frames_cost_nothing coro ops :
+  total_fa (fst (run_from coro false st0 ops)) = 0 /\ total_ff (fst (run_from coro false st0 ops)) = 0.
+Proof.
+  destruct (run_facts coro false ops st0 (Inv_st0 coro)) as (_ & _ & F).
+  induction F as [|x o l tr (sa & sb & _ & S & _) F (IH1 & IH2)]; cbn [total_fa total_ff]; [split; reflexivity|].
+  rewrite IH1, IH2. destruct S as (_ & _ & _ & _ & [(-> & _)|(_ & (D1 & _ & D3) & _)]); [split; reflexivity|].
+  rewrite D1, (D3 eq_refl). split; reflexivity.
 Qed.
 
 (* in normal mode, with at most three handles per suspend point, the frames are ALL the allocations *)
@@ -691,65 +1097,50 @@ Proof.
   intros H. pose proof (zero_alloc_normal heap ops) as F.
   induction F as [|x o l tr S F IH]; cbn [total_other]; [reflexivity|].
   inversion H; subst. rewrite IH by assumption.
-  destruct S as [->|(A & B & C & _)]; [reflexivity|]. unfold o_other. rewrite B, C by assumption. reflexivity.
+  destruct S as [->|(A & B & _)]; [reflexivity|]. rewrite B by assumption. reflexivity.
 Qed.
 
 (* ---------- threshold at program level: resolving a future awaited by k coroutines ---------- *)
-Definition coro_waiters (l : list waiter) : list waiter := filter (fun w => fst w =? 0) l.
-
-Lemma walk_sp f out v l : forall st sp st' sp' c cb sy, sp_wf sp ->
-  walk f out v st sp l = (st', sp', c, cb, sy) ->
-  sp_size sp' = sp_size sp + zlen (coro_waiters l) /\
-  (sp_flag sp = false -> 3 < sp_size sp + zlen (coro_waiters l) -> 1 <= c_a c).
+Lemma grow_alloc_pos k : 3 < k -> 1 <= c_a (grow_cost 0 k).
 Proof.
-  induction l as [|w l IH]; intros st sp st' sp' c cb sy W; unfold walk; fold walk.
-  - intros H; inversion H; subst. cbn [coro_waiters filter]. rewrite zlen_nil. split; [lia|].
-    intros F L. destruct W as [_ W2]. specialize (W2 F). lia.
-  - destruct w as [k i]. cbn [coro_waiters filter fst]. fold (coro_waiters l). destruct (k =? 0) eqn:K.
-    + destruct (sp_add sp (0, i, f)) as [sp1 c1] eqn:A.
-      destruct (walk f out v (release_waiter st (k, i)) sp1 l) as [[[[st2 sp2] c2] cb2] sy2] eqn:Q.
-      intros H; inversion H; subst; clear H.
-      destruct (sp_add_spec _ _ _ _ W A) as (W1 & H1 & N1 & Z1 & T1).
-      destruct (IH _ _ _ _ _ _ _ W1 Q) as (S & P).
-      destruct (walk_spec _ _ _ _ _ _ _ _ _ _ _ W1 Q) as (_ & _ & N2 & _).
-      assert (sp_size sp1 = sp_size sp + 1) as S1 by (unfold sp_size; rewrite H1, zlen_app, zlen_cons, zlen_nil; lia).
-      rewrite zlen_cons. split; [lia|]. intros F L.
-      destruct (Z.eq_dec (sp_size sp) 3) as [E|E].
-      * rewrite (T1 F E). unfold cadd, c_alloc; cbn [c_a]. destruct N2. lia.
-      * assert (sp_flag sp1 = false) as F1.
-        { unfold sp_add, inline_count in A. rewrite F in A. destruct W as [_ W2]. specialize (W2 F).
-          destruct (sp_size sp <? 3) eqn:E3; [|lia]. inversion A; reflexivity. }
-        unfold cadd; cbn [c_a]. destruct N1. specialize (P F1). lia.
-    + destruct (walk f out v (release_waiter st (k, i)) sp l) as [[[[st2 sp2] c2] cb2] sy2] eqn:Q.
-      destruct (IH _ _ _ _ _ _ _ W Q) as (S & P).
-      destruct (k =? 2); intros H; inversion H; subst; clear H; (split; [exact S|exact P]).
+  intros K. unfold grow_cost. change (mk_sp 0) with sp_empty.
+  apply sp_add_all_alloc_pos; [apply sp_wf_empty|reflexivity|].
+  change (sp_size sp_empty) with 0. unfold zlen, n. rewrite repeat_length. lia.
 Qed.
+
+Lemma clear_nonneg k : cnonneg (clear_cost k).
+Proof. unfold clear_cost. apply sp_clear_cost_spec. apply mk_sp_wf. Qed.
 
 (* resolving a future (suspend point discarded) in any reachable state, any mode: the returned suspend point carries
    exactly the coroutines that were waiting; it costs nothing up to three of them and allocates from the fourth on *)
-Theorem resolve_threshold coro heap st f kind s v : Inv st ->
+Theorem resolve_threshold coro heap st f kind s v : Inv coro st ->
   let o := snd (step coro heap st (FResolve f kind 0 s v)) in
   o_st o = 0 ->
   o_sps o = zlen (coro_waiters (f_chain (getf st f))) /\
+  o_csp o = cadd (grow_cost 0 (o_sps o)) (clear_cost (o_sps o)) /\
   (o_sps o <= 3 -> o_csp o = c0) /\ (3 < o_sps o -> 1 <= c_a (o_csp o)).
 Proof.
-  intros I. cbv zeta. unfold step.
-  match goal with |- context [if ?c then _ else (st, rejected)] => destruct c end; cbn [fst snd]; [|cbn; discriminate].
-  match goal with |- context [walk ?a ?b ?c ?d ?e ?g] => destruct (walk a b c d e g) as [[[[st2 sp] csp] cb] sy] eqn:W end.
-  match goal with |- context [dispose ?a ?b ?c ?d ?e] => destruct (dispose a b c d e) as [[[[[st3 ev] csp2] cdq] k] sps] eqn:D end.
-  cbn [fst snd o_st o_sps o_csp]. intros _.
-  destruct (walk_spec _ _ _ _ _ _ _ _ _ _ _ sp_wf_empty W) as (S & Wsp & N & Z).
-  destruct (walk_sp _ _ _ _ _ _ _ _ _ _ _ sp_wf_empty W) as (Sz & P).
-  assert (Inv st2) as I2 by (eapply Inv_same3; [|exact I]; eapply same3_trans; [apply same3_setf|exact S]).
-  destruct (dispose_spec _ _ _ _ _ _ _ _ _ _ _ I2 Wsp D) as (_ & _ & _ & _ & N2 & _ & Z2).
-  assert (sps = sp_size sp) as ->.
-  { unfold dispose in D. cbn [Z.eqb] in D. destruct (negb coro).
-    - destruct (run_items st2 (sp_hs sp)); inversion D; reflexivity.
-    - destruct (dq_pushes (dq st2) (length (sp_hs sp))); inversion D; reflexivity. }
-  change (sp_size sp_empty) with 0 in Sz, P. rewrite Z.add_0_l in Sz, P.
-  split; [exact Sz|]. split.
-  - intros L. rewrite Z, Z2 by exact L. reflexivity.
-  - intros L. rewrite Sz in L. specialize (P eq_refl L). unfold cadd; cbn [c_a]. destruct N2. lia.
+  intros I o A. subst o.
+  pose proof (sp_cost_is_budget coro heap st (FResolve f kind 0 s v) I A) as B.
+  assert (o_sps (snd (step coro heap st (FResolve f kind 0 s v))) = zlen (coro_waiters (f_chain (getf st f)))) as Sz.
+  { clear B. revert A. unfold step. cbv zeta.
+    match goal with |- context [if ?c then _ else (st, rejected)] => destruct c end; cbn [fst snd]; [|cbn; discriminate].
+    match goal with |- context [walk ?a ?b ?c ?d ?e ?g] => destruct (walk a b c d e g) as [[[[st2 sp] csp] cb] sy] eqn:W end.
+    destruct (walk_add_all _ _ _ _ _ _ _ _ _ _ _ W) as (Aw & Sw & Lw).
+    destruct (add_all_can _ _ _ _ sp_can_empty Aw) as (Csp & Szsp & Ecsp).
+    change (0 mod 10) with 0. cbn [Z.eqb].
+    match goal with |- context [dispose ?a ?b ?c ?d ?e] => destruct (dispose a b c d e) as [[[[[st3 ev] csp2] cdq] k] sps] eqn:D end.
+    cbn [fst snd o_sps]. intros _.
+    assert (Inv coro st2) as I2 by (eapply Inv_same3; [|exact I]; eapply same3_trans; [apply (same3_setf st)|exact Sw]).
+    destruct (dispose_spec _ _ _ _ _ _ _ _ _ _ _ I2 Csp D) as (_ & _ & _ & _ & _ & _ & X). cbn [Z.eqb] in X.
+    destruct X as (-> & _). rewrite Szsp, zlen_witems. change (sp_size sp_empty) with 0. lia. }
+  cbn [sp_budget] in B. change (0 mod 10) with 0 in B. cbn [Z.eqb] in B.
+  set (o := snd (step coro heap st (FResolve f kind 0 s v))) in *.
+  rewrite Z.sub_0_r in B. destruct (0 <=? o_sps o) eqn:K; [|discriminate].
+  assert (cadd (grow_cost 0 (o_sps o)) (clear_cost (o_sps o)) = o_csp o) as E by (inversion B; reflexivity).
+  split; [exact Sz|]. split; [symmetry; exact E|]. split.
+  - intros L. rewrite <- E. rewrite grow_small, clear_le3 by lia. reflexivity.
+  - intros L. rewrite <- E. unfold cadd; cbn [c_a]. pose proof (grow_alloc_pos _ L). destruct (clear_nonneg (o_sps o)). lia.
 Qed.
 
 (* ---------- refutation of the unrestricted statement in coroutine mode ---------- *)
@@ -763,11 +1154,9 @@ Lemma zero_alloc_refuted :
     al_oracle true (map encode_op ops) (map encode_obs tr) = false.
 Proof. exists witness. vm_compute. repeat split; reflexivity. Qed.
 
-(* the same witness, one round shorter, is clean; and the very same 64 rounds in normal mode... cannot be written
-   (co_await needs a coroutine), but with the suspend point discarded they allocate nothing in normal mode *)
 Lemma witness_minimal :
   let tr := fst (run_from true true st0 (rounds 63)) in total_other tr = 0 /\ all_accepted tr = true.
 Proof. vm_compute. split; reflexivity. Qed.
 
-Lemma reachable_inv coro heap ops : Inv (snd (run_from coro heap st0 ops)).
-Proof. exact (proj1 (run_facts coro heap ops st0 Inv_st0)). Qed.
+Lemma reachable_inv coro heap ops : Inv coro (snd (run_from coro heap st0 ops)).
+Proof. exact (proj1 (run_facts coro heap ops st0 (Inv_st0 coro))). Qed.
